@@ -1,29 +1,35 @@
 """C18 - surface frame fields are unit, border-aligned (structural clauses)."""
 from __future__ import annotations
-import ast
+import ast, cmath, math, itertools
+from fractions import Fraction
 from .. import au, sym, order
 from ..core import AnalysisError
 from ..rules import c151718 as H
+from ..rules import hj_scope, hj_eval as E
+from ..rules.c151718 import Unrecognised
 
 FACES = "processing.framefield.faces2d"
 VERTS = "processing.framefield.vertex2d"
 FBASE = "processing.framefield.base"
 CONN = "processing.connection"
+LAPM = "operators.laplacian_op"
 
 OPTIMIZERS = [(FACES, "FrameField2DFaces", "faces"), (VERTS, "FrameField2DVertices", "vertices")]
 
 EXPLANATION = (
-    "Static conformance of the two surface frame-field solvers: on the constrained path every store into self.var goes "
-    "through the free index list of an if/else partition on one 'is constrained' predicate (faces: both sides of every "
-    "feature edge are marked), the linear system is L[free,free] x = -L[free,fixed] var[fixed] with the library's connection "
-    "Laplacian for self.conn / self.order; after the last write to self.var a normalize() follows on every path to every "
-    "normal exit (must-dataflow), normalize() divides every entry by its modulus; the parallel transport tables of the face "
-    "and edge connections (and the CAD correction) are written in antisymmetric pairs.  Structural necessary conditions only: "
-    "harmonicity, singularity indices and invariance under renumbering are not decided.  The literal power 4 in the face "
-    "constraint initialisation is deliberately not flagged (DESIGN section 8).")
+    "Static conformance of the two surface frame-field solvers, read on a normal form of each function (private helpers and "
+    "closures inlined, literal loops unrolled, local names resolved to what they denote): on the constrained path every store into "
+    "self.var goes through the free index list of a partition of all elements on one 'is constrained' predicate (faces: both sides "
+    "of every feature edge are marked), the linear system is L[free,free] x = -L[free,fixed] var[fixed] with the library's connection "
+    "Laplacian for self.conn / self.order; after the last write to self.var a normalize() follows on every path to every normal exit "
+    "(must-dataflow); normalize() is evaluated abstractly on a five-entry vector (every non-zero entry must end with modulus 1 and "
+    "its phase); the parallel transport tables are written in antisymmetric pairs; the coefficients emitted by the connection "
+    "Laplacians are collected as (row, column, value) triplets whatever idiom writes them and compared between the connection and "
+    "the scalar case.  A construct that is not recognised ends `undecided`; only a recognised construct that contradicts a clause "
+    "is reported.  The literal power 4 in the face constraint initialisation is deliberately not flagged (DESIGN section 8).")
 
 RULES = {
-    "C18-F1": "constrained path of optimize(): the free/fixed lists are an if/else partition of all elements on one predicate that is true "
+    "C18-F1": "constrained path of optimize(): the free/fixed lists are a partition of all elements on one predicate that is true "
               "exactly for the constrained elements; every store into self.var is indexed by the free list (no rebinding of self.var)",
     "C18-H1": "constrained path: L_II = lap[free,:][:,free], L_IB = lap[free,:][:,fixed], the boundary term is L_IB . self.var[fixed] and enters "
               "every solve with coefficient -1; lap is the connection Laplacian of self.mesh for connection=self.conn, order=self.order, cotan=self.use_cotan",
@@ -31,23 +37,30 @@ RULES = {
               "non-zero entry by its modulus; the vertex constraint initialisation ends with the normalising loop",
     "C18-E1": "constraint initialisation: a complex number built from the stored direction of an edge (vertices[b] - vertices[a] with a, b = edges[e]) "
               "enters self.var only through an even power - an even literal exponent, or an exponent whose evenness is tested on the path - so that "
-              "the constraint does not depend on the orientation in which the edge is stored",
-    "C18-L1": "connection Laplacians used by the solvers: every off-diagonal entry of the connection branch of operators.laplacian is "
-              "m * rect(1, phase) with the magnitude m of the scalar branch, phase_ij + phase_ji = 0 mod 2*pi*order (Hermitian) and "
+              "the constraint does not depend on the orientation in which the edge is stored; the constraint is computed from that direction",
+    "C18-L1": "connection Laplacians used by the solvers: every off-diagonal entry of the connection case of operators.laplacian is "
+              "m * rect(1, phase) with the magnitude m of the scalar case, phase_ij + phase_ji = 0 mod 2*pi*order (Hermitian) and "
               "phase = 0 mod 2*pi*order when transport(j,i) = transport(i,j) +- pi (flat connection); laplacian_triangles is N^H [D] N with rows "
               "(-1, rect(1, order*transport)) that reduce to (-1, 1) for a zero transport",
+    "C18-S1": "flag_singularities writes the singularity / edge-rotation attributes only where the value is non-zero: the attribute it writes into is "
+              "fresh - created after a has_attribute test, or fetched and cleared - so that indices flagged by a previous call do not survive",
+    "C18-I1": "an element index answered by a connectivity query (corner, face, edge id - None when absent) is never tested for truth: index 0 is a "
+              "valid element, the connection and the field must not depend on which element happens to be numbered 0",
     "C18-P1": "antisymmetric parallel transport: every store tr[(x,y)] = w is paired, in the same block, with tr[(y,x)] = -w (x != y); "
               "transport(a, b) reads tr[(a, b)]",
 }
 
 
 def run(ctx):
+    G = H.guarded
     for mod, cls, elem in OPTIMIZERS:
-        f1_h1(ctx, mod, cls, elem)
-    n1_normalize(ctx)
-    p1_transport(ctx)
-    e1_even_power(ctx)
-    l1_flat_reduction(ctx)
+        G(ctx, "C18-F1", mod, f"{cls}.optimize", f1_h1, mod, cls, elem)
+    G(ctx, "C18-N1", FBASE, "FrameField.normalize", n1_normalize)
+    G(ctx, "C18-P1", CONN, "SurfaceConnection.transport", p1_transport)
+    G(ctx, "C18-E1", FACES, "_BaseFrameField2DFaces._initialize_variables", e1_even_power)
+    G(ctx, "C18-L1", LAPM, "laplacian", l1_flat_reduction)
+    G(ctx, "C18-S1", FACES, "_BaseFrameField2DFaces.flag_singularities", s1_fresh_singularities)
+    G(ctx, "C18-I1", CONN, "SurfaceConnectionVertices._initialize", i1_index_truth)
 
 
 # ------------------------------------------------------------------------------ helpers
@@ -64,435 +77,19 @@ def _var_stores(body):
     return out
 
 
-def _find_partition(fn):
-    """(loop, if, loopvar, pred, true_list, false_list) of `for x in ALL: if pred: A.append(x) else: B.append(x)`"""
-    for lp in au.stmts(fn.body):
-        if not (isinstance(lp, ast.For) and isinstance(lp.target, ast.Name)):
-            continue
-        x = lp.target.id
-        for s in lp.body:
-            if isinstance(s, ast.If) and s.orelse:
-                def app(body):
-                    out = []
-                    for q in body:
-                        if isinstance(q, ast.Expr) and isinstance(q.value, ast.Call) and au.call_tail(q.value) == "append" \
-                                and isinstance(q.value.func, ast.Attribute) and isinstance(q.value.func.value, ast.Name) \
-                                and len(q.value.args) == 1 and H.is_name(q.value.args[0], x):
-                            out.append(q.value.func.value.id)
-                        else:
-                            out.append(None)
-                    return out
-                a, b = app(s.body), app(s.orelse)
-                if len(a) == 1 and len(b) == 1 and a[0] and b[0] and a[0] != b[0]:
-                    return lp, s, x, s.test, a[0], b[0]
-    return None
-
-
-# ------------------------------------------------------------------------------ C18-F1 / C18-H1
-def f1_h1(ctx, mod, cls, elem):
-    repo = ctx.repo
-    fn = repo.func(mod, f"{cls}.optimize")
-    site = ctx.site(mod, fn)
-    fl = H.Floor(ctx, "C18-F1")
-    fl_h = H.Floor(ctx, "C18-H1")
-    b = sym.Bindings(fn)
-    part = _find_partition(fn)
-    if part is None:
-        ctx.fail("C18-F1", site, f"{cls}.optimize: free/fixed partition `for x in all: if constrained(x): fixed.append(x) else: free.append(x)` not found",
-                 "constrained elements must be kept out of the unknowns")
-        return
-    lp, iff, x, pred, tl, fll = part
-    all_ids = {"faces": ("self.mesh.id_faces", "range(len(self.mesh.faces))"),
-               "vertices": ("self.mesh.id_vertices", "range(len(self.mesh.vertices))")}[elem]
-    ok_all = au.src(lp.iter) in all_ids and iff in lp.body and not H.path_condition(iff, stop=lp)
-    ctx.check(ok_all, "C18-F1", ctx.site(mod, fn, lp), f"{cls}.optimize: the partition does not classify every element of {all_ids[0]}",
-              f"found loop over `{au.src(lp.iter)}`; an unclassified element is neither solved for nor kept", note=f"partition ranges over {all_ids[0]}")
-    # predicate: true <=> constrained
-    neg = False
-    p = pred
-    while isinstance(p, ast.UnaryOp) and isinstance(p.op, ast.Not):
-        p, neg = p.operand, not neg
-    kind = None
-    if isinstance(p, ast.Compare) and len(p.ops) == 1 and isinstance(p.ops[0], (ast.In, ast.NotIn)) and H.is_name(p.left, x) \
-            and au.src(p.comparators[0]) == "self.feat.feature_vertices":
-        kind = "feature_vertices"
-        if isinstance(p.ops[0], ast.NotIn):
-            neg = not neg
-    elif isinstance(p, ast.Subscript) and isinstance(p.value, ast.Name) and H.is_name(p.slice, x):
-        kind = ("marks", p.value.id)
-    fixed, free = (fll, tl) if neg else (tl, fll)
-    if elem == "vertices":
-        ctx.check(kind == "feature_vertices", "C18-F1", ctx.site(mod, fn, iff),
-                  f"{cls}.optimize: the partition predicate is not `v in self.feat.feature_vertices`",
-                  "the constrained vertices are exactly the endpoints of feature edges (those initialised by _initialize_variables)",
-                  note="fixed <=> v in feature_vertices")
-    else:
-        ok_marks = False
-        detail = "predicate is not a per-face mark"
-        if isinstance(kind, tuple):
-            A = kind[1]
-            adef = b.resolve(ast.Name(id=A, ctx=ast.Load()), at=lp)
-            fresh = isinstance(adef, ast.Call) and au.call_tail(adef) in ("create_attribute", "Attribute", "zeros", "dict")
-            marks = H.subscript_stores(fn, lambda q: H.is_name(q, A))
-            sides = set()
-            bad = []
-            for st, tgt, val in marks:
-                if not (isinstance(st, ast.Assign) and au.const(val) is True and isinstance(tgt.slice, ast.Name)):
-                    bad.append(au.src(st))
-                    continue
-                T = tgt.slice.id
-                floops = [l for l in H.loop_ancestors(st, stop=fn) if isinstance(l, ast.For)
-                          and au.src(l.iter) == "self.feat.feature_edges" and isinstance(l.target, ast.Name)]
-                if not floops:
-                    bad.append(au.src(st))
-                    continue
-                fe = floops[0]
-                e = fe.target.id
-                # endpoints and faces
-                ends = None
-                pair = None
-                via_loop = None
-                for q in au.stmts(fe.body):
-                    if isinstance(q, ast.Assign) and len(q.targets) == 1 and isinstance(q.targets[0], ast.Tuple) and len(q.targets[0].elts) == 2 \
-                            and all(isinstance(z, ast.Name) for z in q.targets[0].elts):
-                        if au.src(q.value) == f"self.mesh.edges[{e}]":
-                            ends = tuple(z.id for z in q.targets[0].elts)
-                        elif isinstance(q.value, ast.Call) and au.call_tail(q.value) == "edge_to_faces":
-                            pair = (tuple(z.id for z in q.targets[0].elts), q.value)
-                    if isinstance(q, ast.For) and isinstance(q.iter, ast.Call) and au.call_tail(q.iter) == "edge_to_faces" \
-                            and H.is_name(q.target, T):
-                        via_loop = q
-
-                def of_edge(call):
-                    if len(call.args) == 2 and ends and {au.src(a) for a in call.args} == set(ends):
-                        return True
-                    return len(call.args) == 1 and isinstance(call.args[0], ast.Starred) \
-                        and au.src(call.args[0].value) == f"self.mesh.edges[{e}]"
-                cond = H.path_condition(st, stop=fe)
-                def not_none(cs):
-                    if len(cs) != 1:
-                        return False
-                    t, pol, _ = cs[0]
-                    if isinstance(t, ast.Compare) and len(t.ops) == 1 and H.is_name(t.left, T) and au.const(t.comparators[0], "x") is None \
-                            and isinstance(t.comparators[0], ast.Constant):
-                        return (isinstance(t.ops[0], ast.IsNot) and pol) or (isinstance(t.ops[0], ast.Is) and not pol)
-                    return False
-                if pair and T in pair[0] and of_edge(pair[1]) and not_none(cond):
-                    sides.add(pair[0].index(T))
-                elif via_loop is not None and of_edge(via_loop.iter) and not_none(H.path_condition(st, stop=via_loop)) \
-                        and not H.path_condition(via_loop, stop=fe):
-                    sides |= {0, 1}
-                else:
-                    bad.append(au.src(st))
-            ok_marks = fresh and sides == {0, 1} and not bad
-            detail = f"sides of a feature edge marked: {sorted(sides)}; unrecognised marks: {bad}; mark container fresh: {fresh}"
-        ctx.check(ok_marks, "C18-F1", ctx.site(mod, fn, iff),
-                  f"{cls}.optimize: `fixed` does not mark exactly the faces on both sides of every feature edge",
-                  "every face adjacent to a border / feature edge carries a constraint (set by _initialize_variables) and must be kept fixed; " + detail,
-                  note="fixed <=> face adjacent to a feature edge (both sides marked)")
-    # stores on the constrained path
-    blk, owner = au.enclosing_block(lp)
-    stores = _var_stores(blk)
-    if not stores:
-        ctx.fail("C18-F1", ctx.site(mod, fn, lp), f"{cls}.optimize: no store into self.var on the constrained path",
-                 "the solution of the linear system is never written back")
-    for st, k, idx in stores:
-        ok = k == "index" and H.is_name(idx, free)
-        ctx.check(ok, "C18-F1", ctx.site(mod, fn, st),
-                  f"{cls}.optimize: a store into self.var on the constrained path is not indexed by the free list",
-                  f"`{au.src(st)}` overwrites constrained elements: the field must leave every constrained element at its constraint "
-                  f"(free list is `{free}`)", note=f"self.var[{free}] = ...")
-    # lists are fresh and not touched afterwards
-    inits = [s for s in blk if isinstance(s, ast.Assign) and any(n in (free, fixed) for t in s.targets for n in au.assigned_names(t))]
-    ok_init = bool(inits) and all(H.block_pos(s) < H.block_pos(lp) for s in inits)
-    vals = {}
-    for s in inits:
-        for n, v in sym.split_assign(s):
-            vals[n] = v
-    ok_init = ok_init and all(isinstance(vals.get(n), ast.List) and not vals[n].elts for n in (free, fixed))
-    later = [c for s in blk[H.block_pos(lp) + 1:] for c in au.calls(s) if isinstance(c.func, ast.Attribute)
-             and isinstance(c.func.value, ast.Name) and c.func.value.id in (free, fixed)
-             and c.func.attr in ("append", "extend", "pop", "remove", "insert", "clear", "sort", "reverse")]
-    ctx.check(ok_init and not later, "C18-F1", ctx.site(mod, fn, lp), f"{cls}.optimize: free/fixed lists are not fresh lists filled only by the partition",
-              "a stale or later modified index list no longer matches the matrix blocks", note="free/fixed start empty, filled once")
-
-    # ---------------- H1
-    def one(e, at):
-        if isinstance(e, ast.Name):
-            d = b.reaching(e.id, at)
-            return d if d is not None else e
-        return e
-    solves = [(st, c) for st in au.stmts(blk) for c in au.calls(st) if au.call_tail(c) == "spsolve" and len(c.args) == 2]
-    if not solves:
-        ctx.fail("C18-H1", ctx.site(mod, fn, lp), f"{cls}.optimize: no linear solve on the constrained path", "")
-        return
-    st0, c0 = solves[0]
-    LI = H.block_parts(one(c0.args[0], st0))
-    ok_li = LI is not None and H.is_name(LI[1], free) and H.is_name(LI[2], free)
-    ctx.check(ok_li, "C18-H1", ctx.site(mod, fn, st0), f"{cls}.optimize: the first solve does not use lap[free,:][:,free]",
-              f"found `{au.src(one(c0.args[0], st0))}`; with smoothing off the field is the harmonic extension of the constraints", note="L_II = lap[free][:,free]")
-    # boundary term
-    bterm = None
-    for s in blk:
-        if isinstance(s, ast.Assign) and len(s.targets) == 1 and isinstance(s.targets[0], ast.Name):
-            mv = H.matvec(s.value)
-            if mv and isinstance(mv[2], ast.Subscript) and au.is_self_attr(mv[2].value, "var"):
-                bterm = (s.targets[0].id, mv, s)
-    if bterm is None:
-        ctx.fail("C18-H1", ctx.site(mod, fn, lp), f"{cls}.optimize: boundary term `L_IB.dot(self.var[fixed])` not found", "")
-    else:
-        nameB, mv, sB = bterm
-        LB = H.block_parts(one(mv[1], sB))
-        ok_lb = LB is not None and H.is_name(LB[1], free) and H.is_name(LB[2], fixed) and H.is_name(mv[2].slice, fixed) \
-            and (LI is None or au.same(LB[0], LI[0])) and H.block_pos(sB) < H.block_pos(H.top_stmt_in(blk, st0))
-        ctx.check(ok_lb, "C18-H1", ctx.site(mod, fn, sB),
-                  f"{cls}.optimize: the boundary term is not lap[free,:][:,fixed] . self.var[fixed] computed before the first solve",
-                  f"found `{au.src(sB)}` with matrix `{au.src(one(mv[1], sB))}`", note="boundary term L_IB . var[fixed]")
-        for st, c in solves:
-            p = H.poly(c.args[1])
-            coef = p.coeff(nameB)
-            ctx.check(coef == sym.Poly.const(-1 * mv[0]), "C18-H1", ctx.site(mod, fn, st),
-                      f"{cls}.optimize: a solve on the constrained path does not carry the boundary term with coefficient -1",
-                      f"right-hand side `{au.src(c.args[1])}`: L_II x + L_IB x_B = 0 fixes the sign; without the term the constraints are ignored",
-                      note="rhs contains -L_IB x_B")
-    # laplacian
-    lapn = LI[0] if LI else None
-    lap = b.resolve(lapn, at=st0) if lapn is not None else None
-    while isinstance(lap, ast.Call) and au.call_tail(lap) in ("tocsc", "tocsr", "tolil") and isinstance(lap.func, ast.Attribute):
-        lap = lap.func.value
-    want_fn = {"faces": "laplacian_triangles", "vertices": "laplacian"}[elem]
-    ok_lap = isinstance(lap, ast.Call) and au.call_tail(lap) == want_fn and lap.args and au.src(lap.args[0]) == "self.mesh"
-    kws = {}
-    if ok_lap:
-        names = ["mesh", "cotan", "connection", "order"]
-        for i, a in enumerate(lap.args):
-            kws[names[i]] = a
-        for k in lap.keywords:
-            kws[k.arg] = k.value
-    ok_kw = ok_lap and au.is_self_attr(kws.get("connection"), "conn") and au.is_self_attr(kws.get("order"), "order") \
-        and au.is_self_attr(kws.get("cotan"), "use_cotan")
-    ctx.check(ok_kw, "C18-H1", ctx.site(mod, fn, st0),
-              f"{cls}.optimize: the matrix is not operators.{want_fn}(self.mesh, cotan=self.use_cotan, connection=self.conn, order=self.order)",
-              f"found `{au.src(lap) if lap is not None else None}`: the field of order n is harmonic for the connection Laplacian of order n "
-              "(the default order 4 is wrong for every other order)", note=f"{want_fn}(connection=self.conn, order=self.order)")
-    fl.require(5)
-    fl_h.require(5)
-
-
-# ------------------------------------------------------------------------------ C18-N1
-def _is_normalising_loop(st):
-    """for i in ...: [if abs(self.var[i]) > eps:] self.var[i] /= abs(self.var[i])"""
-    if not (isinstance(st, ast.For) and isinstance(st.target, ast.Name)):
-        return None
-    i = st.target.id
-    for q in au.stmts(st.body):
-        if isinstance(q, ast.AugAssign) and isinstance(q.op, ast.Div) and au.src(q.target) == f"self.var[{i}]" \
-                and au.src(q.value) == f"abs(self.var[{i}])":
-            return q
-        if isinstance(q, ast.Assign) and len(q.targets) == 1 and au.src(q.targets[0]) == f"self.var[{i}]" \
-                and au.src(q.value) == f"self.var[{i}] / abs(self.var[{i}])":
-            return q
-    return None
-
-
-def _clean_flow(ctx, mod, cls_qual, fn, depth=0, init=("clean",), loops_gen=False):
-    mod_o = ctx.repo.module(mod)
-    methods = ctx.repo.methods(mod_o, ctx.repo.cls(mod, cls_qual))
-
-    def writes(node):
-        if isinstance(node, (ast.Assign, ast.AugAssign, ast.AnnAssign)):
-            for t in au.assign_targets(node):
-                for x in ast.walk(t):
-                    if au.is_self_attr(x, "var") and isinstance(x.ctx, ast.Store):
-                        return True
-                    if isinstance(x, ast.Subscript) and isinstance(x.ctx, ast.Store) and au.is_self_attr(x.value, "var"):
-                        return True
-        return False
-
-    def helper(call):
-        """effect of self.m(): 'gen' / 'kill' / None"""
-        if not (isinstance(call.func, ast.Attribute) and au.is_self_attr(call.func)):
-            return None
-        name = call.func.attr
-        if name == "normalize":
-            return "gen"
-        if depth >= 2 or name not in methods:
-            return None
-        m, f, o = methods[name]
-        touches = any(au.is_self_attr(n, "var") and isinstance(getattr(n, "ctx", None), ast.Store) or
-                      (isinstance(n, ast.Subscript) and isinstance(n.ctx, ast.Store) and au.is_self_attr(n.value, "var"))
-                      for n in au.walk(f)) or any(au.call_tail(c) == "normalize" for c in au.calls(f))
-        if not touches:
-            return None
-        fl = _clean_flow(ctx, m.name, o._qualname, f, depth + 1, init=())
-        exits = [s for k, n, s in fl.exits if k in ("fall", "return")]
-        return "gen" if exits and all("clean" in s for s in exits) else "kill"
-
-    def gen_kill(node):
-        g, k = set(), set()
-        if writes(node):
-            k.add("clean")
-        for c in au.calls(node):
-            h = helper(c)
-            if h == "gen" and isinstance(node, ast.Expr) and node.value is c:
-                g.add("clean")
-                k.discard("clean")
-            elif h == "kill":
-                k.add("clean")
-        return g, k
-
-    return H.must_flow(fn.body, gen_kill, init=init)
-
-
-def n1_normalize(ctx):
-    fl = H.Floor(ctx, "C18-N1")
-    for mod, cls, elem in OPTIMIZERS:
-        fn = ctx.repo.func(mod, f"{cls}.optimize")
-        f = _clean_flow(ctx, mod, cls, fn)
-        n_w = len(_var_stores(fn.body))
-        if n_w == 0:
-            ctx.fail("C18-N1", ctx.site(mod, fn), f"{cls}.optimize: no write to self.var found", "")
-            continue
-        for kind, node, state in f.exits:
-            if kind == "raise":
-                continue
-            label = "end of the method" if kind == "fall" else "return"
-            ctx.check("clean" in state, "C18-N1", ctx.site(mod, fn, node) if node is not None else ctx.site(mod, fn),
-                      f"{cls}.optimize: a path reaches the {label} with self.var written but not normalised",
-                      "the field must have unit modulus on every element: the solution of a linear system / eigenproblem has arbitrary modulus "
-                      "until self.normalize() is applied after the last write",
-                      note=f"{cls}.optimize: normalize() follows the last write ({label})")
-    # normalize itself
-    fn = ctx.repo.func(FBASE, "FrameField.normalize")
-    site = ctx.site(FBASE, fn)
-    loops = [s for s in fn.body if isinstance(s, ast.For)]
-    q = _is_normalising_loop(loops[0]) if len(loops) == 1 else None
-    ok = q is not None
-    if ok:
-        lp = loops[0]
-        rng = lp.iter
-        ok_rng = isinstance(rng, ast.Call) and au.call_tail(rng) == "range" and len(rng.args) == 1 \
-            and au.src(rng.args[0]) in ("self.var.size", "len(self.var)", "self.var.shape[0]")
-        # guard: only a positivity test on the modulus may skip an entry
-        cond = H.path_condition(q, stop=lp)
-        i = lp.target.id
-
-        def atom(x, boolean):
-            if not boolean and au.src(x) == f"abs(self.var[{i}])":
-                return H.name("modulus")
-            return None
-        ab = H.Abstractor(atom)
-        code = ab.boolean(H.conj([(t, p) for t, p, _ in cond]))
-        thr_ok = True
-        if cond:
-            try:
-                # must normalise whenever modulus is clearly non-zero (>= 1e-6) : find a witness with modulus large and code false
-                wit, n = H.compare(ast.BoolOp(op=ast.Or(), values=[code, ast.Compare(left=H.name("modulus"), ops=[ast.Lt()],
-                                                                                       comparators=[ast.Constant(value=1e-06)])]), "True")
-                thr_ok = wit is None and not ab.unknown
-            except order.Unsupported:
-                thr_ok = False
-        ok = ok_rng and thr_ok
-    ctx.check(ok, "C18-N1", site, "FrameField.normalize does not divide every (non-zero) entry of self.var by its modulus",
-              "normalize() is the only place where unit modulus is established; entries may only be skipped when their modulus is (numerically) zero",
-              note="normalize: var[i] /= abs(var[i]) for every i with non-zero modulus")
-    early = [r for r in au.walk(fn) if isinstance(r, ast.Return)]
-    okr = all(len(H.path_condition(r, stop=fn)) == 1 and au.src(H.path_condition(r, stop=fn)[0][0]) == "self.var is None" for r in early)
-    ctx.check(okr, "C18-N1", site, "FrameField.normalize returns early for a reason other than `self.var is None`", "",
-              note="normalize: only `var is None` skips the loop")
-    # vertex constraint initialisation ends with the normalising loop
-    fn = ctx.repo.func(VERTS, "_BaseFrameField2DVertices._initialize_variables")
-    site = ctx.site(VERTS, fn)
-    last_write = None
-    for idx, s in enumerate(fn.body):
-        if _var_stores([s]):
-            last_write = idx
-    ok = last_write is not None and _is_normalising_loop(fn.body[last_write]) is not None \
-        and au.src(fn.body[last_write].iter) == "self.feat.feature_vertices"
-    if ok:
-        q = _is_normalising_loop(fn.body[last_write])
-        cond = H.path_condition(q, stop=fn.body[last_write])
-        ok = len(cond) <= 1
-    ctx.check(ok, "C18-N1", site, "_initialize_variables (vertices): the accumulated constraints are not normalised per feature vertex at the end",
-              "a vertex with two feature edges accumulates two unit numbers; the constraint must be brought back to unit modulus",
-              note="vertex constraints normalised over feature_vertices")
-    fl.require(6)
-
-
-# ------------------------------------------------------------------------------ C18-P1
-def _tr_key(t):
-    """(x, y) sources if t is <...>._transport[(x, y)]"""
-    if isinstance(t, ast.Subscript) and isinstance(t.value, ast.Attribute) and t.value.attr == "_transport" \
-            and isinstance(t.slice, ast.Tuple) and len(t.slice.elts) == 2:
-        return au.src(t.slice.elts[0]), au.src(t.slice.elts[1])
-    return None
-
-
-def _pairing(ctx, mod, qual, min_pairs):
-    fn = ctx.repo.func(mod, qual)
-    b = sym.Bindings(fn)
-    site = ctx.site(mod, fn)
-    stores = []   # (stmt, key, delta-kind, value)
-    for st in au.stmts(fn.body):
-        if isinstance(st, ast.Assign) and len(st.targets) == 1 and _tr_key(st.targets[0]):
-            stores.append((st, _tr_key(st.targets[0]), "set", st.value))
-        elif isinstance(st, ast.AugAssign) and _tr_key(st.target) and isinstance(st.op, (ast.Add, ast.Sub)):
-            v = st.value if isinstance(st.op, ast.Add) else ast.UnaryOp(op=ast.USub(), operand=st.value)
-            stores.append((st, _tr_key(st.target), "delta", v))
-    if len(stores) < 2 * min_pairs:
-        ctx.fail("C18-P1", site, f"{qual}: transport stores not found", f"{len(stores)} store(s) into _transport, expected {2 * min_pairs}")
-        return
-
-    key_names = tuple({n.id for st_, k_, kind_, v_ in stores for t_ in au.assign_targets(st_) for n in ast.walk(t_.slice)
-                       if isinstance(n, ast.Name)})
-
-    def value_poly(st, v):
-        """polynomial of the stored value; reads of _transport[(a,b)] stored earlier in the same block are replaced by that value"""
-        blk, _ = au.enclosing_block(st)
-        env_reads = {}
-        for s2, k2, kind2, v2 in stores:
-            b2, _ = au.enclosing_block(s2)
-            if b2 is blk and kind2 == "set" and H.block_pos(s2) < H.block_pos(st):
-                env_reads[k2] = (s2, v2)
-        rv = b.resolve(v, at=st, keep=key_names)
-
-        def to_p(e, depth=0):
-            def atom_of(x):
-                k = _tr_key(x)
-                if k is not None and k in env_reads and depth < 4:
-                    s2, v2 = env_reads[k]
-                    return value_poly(s2, v2)
-                return None
-            return _poly_with(e, atom_of)
-        return to_p(rv)
-
-    for st, key, kind, v in stores:
-        x, y = key
-        partner = [(s2, v2) for s2, k2, kind2, v2 in stores if k2 == (y, x) and kind2 == kind and H.in_same_block(s2, st)]
-        ssite = ctx.site(mod, fn, st)
-        if x == y or len(partner) != 1:
-            ctx.fail("C18-P1", ssite, f"{qual}: store into _transport[({x},{y})] has no partner _transport[({y},{x})] in the same block",
-                     "parallel transport must be antisymmetric: transport(y, x) = -transport(x, y); otherwise the connection Laplacian is not Hermitian "
-                     "and the field depends on the orientation in which an edge is visited")
-            continue
-        p1 = value_poly(st, v)
-        p2 = value_poly(partner[0][0], partner[0][1])
-        ctx.check((p1 + p2).is_zero(), "C18-P1", ssite,
-                  f"{qual}: _transport[({x},{y})] and _transport[({y},{x})] are not opposite",
-                  f"values `{au.src(v)}` and `{au.src(partner[0][1])}` sum to {p1 + p2!r} instead of 0",
-                  note=f"{qual}: tr[({x},{y})] = -tr[({y},{x})]")
+def _blocks(e):
+    from .c17 import _blocks as b
+    return b(e)
 
 
 def _poly_with(e, atom_of):
     """H.poly with an extra atom hook returning a Poly"""
-    from fractions import Fraction
-
     def rec(x):
         a = atom_of(x)
         if a is not None:
             return a
-        v = order.fold_const(x)
-        if v is not None:
+        v = hj_scope.fold(x)
+        if v is not None and not isinstance(v, bool) and not isinstance(v, complex):
             return sym.Poly.const(Fraction(v).limit_denominator(10 ** 9))
         if isinstance(x, ast.Name):
             return sym.Poly.atom(x.id)
@@ -516,19 +113,574 @@ def _poly_with(e, atom_of):
     return rec(e)
 
 
+# ------------------------------------------------------------------------------ C18-F1 / C18-H1
+def f1_h1(ctx, mod, cls, elem):
+    repo = ctx.repo
+    fn0 = repo.func(mod, f"{cls}.optimize")
+    site = ctx.site(mod, fn0)
+    fn, S, nz = H.norm_fn(ctx, mod, f"{cls}.optimize", keep=("normalize", "log", "warn", "_compute_attach_weight"))
+    acc = {c.func.value.id for c in au.calls(fn) if au.call_tail(c) == "append" and isinstance(c.func, ast.Attribute) and isinstance(c.func.value, ast.Name)}
+    acc |= {t.id for st in au.stmts(fn.body) if isinstance(st, ast.Assign) and H.is_empty_container(st.value) == "list"
+            for t in st.targets if isinstance(t, ast.Name)}
+    keep = tuple(sorted(acc))
+    # ---- the solves of the constrained path: those whose matrix is a block of the Laplacian indexed by accumulated lists
+    solves = []
+    cands = sorted([c for c in au.calls(fn) if au.call_tail(c) in ("spsolve", "solve") and len(c.args) == 2], key=lambda c: (c.lineno, c.col_offset))
+    rest = []
+    for c in cands:
+        Mc = S.canon(c.args[0], c, keep=keep)
+        LI = _blocks(Mc)
+        if LI is not None and isinstance(LI[1], ast.Name) and LI[1].id in acc:
+            solves.append((c, Mc, LI))
+        else:
+            rest.append((c, Mc))
+    for c, Mc in rest:
+        if solves and any(_blocks(n) is not None and isinstance(_blocks(n)[1], ast.Name) and _blocks(n)[1].id == solves[0][2][1].id
+                          for n in ast.walk(Mc) if isinstance(n, ast.Subscript)):
+            solves.append((c, Mc, None))
+    if not solves:
+        ctx.undecided("C18-H1", site, f"{cls}.optimize: the linear solve of the constrained path (matrix = block of the Laplacian over an index list) is not recognised", "")
+        ctx.undecided("C18-F1", site, f"{cls}.optimize: the free / fixed index lists are not recognised", "")
+        return
+    c0, M0, LI0 = solves[0]
+    free = LI0[1].id
+    s0site = ctx.site(mod, fn0, c0)
+    ctx.check(H.is_name(LI0[2], free), "C18-H1", s0site, f"{cls}.optimize: the first solve does not use lap[free,:][:,free]",
+              f"rows `{free}`, columns `{au.src(LI0[2])[:40]}`; with smoothing off the field is the harmonic extension of the constraints", note="L_II = lap[free][:,free]")
+    # ---- boundary term in every right-hand side
+    fixed = None
+    lb_seen = []
+    free_terms = []
+
+    def atom_of(x):
+        mv = H.matvec(x)
+        if mv and isinstance(mv[2], ast.Subscript) and au.is_self_attr(mv[2].value, "var") and isinstance(mv[2].slice, ast.Name):
+            LB = _blocks(mv[1])
+            if mv[2].slice.id != free or (LB is not None and isinstance(LB[2], ast.Name) and LB[2].id != free):
+                lb_seen.append((LB, mv[2].slice.id))
+                return sym.Poly.atom("BT").scale(mv[0])
+            free_terms.append(x)
+        return None
+    for c, Mc, LI in solves:
+        rc = S.canon(c.args[1], c, keep=keep)
+        n0 = len(lb_seen)
+        p = _poly_with(rc, atom_of)
+        csite = ctx.site(mod, fn0, c)
+        if len(lb_seen) == n0:
+            var_reads = [n for n in ast.walk(rc) if isinstance(n, ast.Subscript) and au.is_self_attr(n.value, "var")]
+            only_free = var_reads and all(H.is_name(n.slice, free) for n in var_reads)
+            if only_free and lb_seen:
+                ctx.fail("C18-H1", csite, f"{cls}.optimize: a solve on the constrained path does not carry the boundary term with coefficient -1",
+                         f"right-hand side `{au.src(c.args[1])[:80]}` only involves self.var on the free elements: the constraints are ignored by this solve")
+            elif any(isinstance(n, ast.Attribute) and n.attr == "var" for n in ast.walk(rc)) or not p.atoms():
+                ctx.undecided("C18-H1", csite, f"{cls}.optimize: the boundary term L_IB . self.var[fixed] of a right-hand side is not recognised", "")
+            else:
+                ctx.undecided("C18-H1", csite, f"{cls}.optimize: the boundary term L_IB . self.var[fixed] of a right-hand side is not recognised", "")
+            continue
+        coef = p.coeff("BT")
+        ctx.check(coef == sym.Poly.const(-1) and p.degree_in("BT") == 1, "C18-H1", csite,
+                  f"{cls}.optimize: a solve on the constrained path does not carry the boundary term with coefficient -1",
+                  f"right-hand side `{au.src(c.args[1])[:80]}`: the term L_IB . self.var[fixed] has coefficient {coef!r}; L_II x + L_IB x_B = 0 fixes the sign",
+                  note="rhs contains -L_IB x_B")
+    if lb_seen:
+        LB, fixed = lb_seen[0]
+        fixed = next((x for l, x in lb_seen if x != free), None) or next((l[2].id for l, x in lb_seen if l is not None and isinstance(l[2], ast.Name) and l[2].id != free), fixed)
+        if any(l is None for l, x in lb_seen):
+            ctx.undecided("C18-H1", s0site, f"{cls}.optimize: the matrix of the boundary term is not recognised as a block lap[free,:][:,fixed]", "")
+        else:
+            ok_lb = all(H.is_name(l[1], free) and H.is_name(l[2], fixed) and x == fixed and au.same(l[0], LI0[0]) for l, x in lb_seen)
+            ctx.check(ok_lb, "C18-H1", s0site, f"{cls}.optimize: the boundary term is not lap[free,:][:,fixed] . self.var[fixed]",
+                      f"found blocks {[(au.src(l[1]), au.src(l[2]), x) for l, x in lb_seen][:3]} of `{au.src(lb_seen[0][0][0])[:50]}`", note="boundary term L_IB . var[fixed]")
+    # ---- the Laplacian
+    lap = LI0[0]
+    while isinstance(lap, ast.Call) and isinstance(lap.func, ast.Attribute) and lap.func.attr in ("tocsc", "tocsr", "tolil") and not lap.args:
+        lap = lap.func.value
+    want_fn = {"faces": "laplacian_triangles", "vertices": "laplacian"}[elem]
+    if not (isinstance(lap, ast.Call) and au.call_tail(lap) in ("laplacian_triangles", "laplacian", "laplacian_edges", "graph_laplacian")):
+        ctx.undecided("C18-H1", s0site, f"{cls}.optimize: the matrix of the system is not recognised as an operator of mouette.operators", "")
+    else:
+        kws = {}
+        names = ["mesh", "cotan", "connection", "order"]
+        for i, a in enumerate(lap.args):
+            if i < len(names):
+                kws[names[i]] = a
+        for k in lap.keywords:
+            kws[k.arg] = k.value
+        ok_kw = au.call_tail(lap) == want_fn and au.src(kws.get("mesh")) == "self.mesh" and au.is_self_attr(kws.get("connection"), "conn") \
+            and au.is_self_attr(kws.get("order"), "order") and au.is_self_attr(kws.get("cotan"), "use_cotan")
+        want_attr = {"connection": "conn", "order": "order", "cotan": "use_cotan"}
+        clearly_bad = au.call_tail(lap) != want_fn or any(
+            kws.get(k) is None or isinstance(kws.get(k), ast.Constant) or (au.is_self_attr(kws.get(k)) and not au.is_self_attr(kws.get(k), a))
+            for k, a in want_attr.items())
+        if not ok_kw and not clearly_bad:
+            ctx.undecided("C18-H1", s0site, f"{cls}.optimize: an argument of the Laplacian of the system is not recognised", f"`{au.src(lap)[:100]}`")
+        else:
+          ctx.check(ok_kw, "C18-H1", s0site,
+                  f"{cls}.optimize: the matrix is not operators.{want_fn}(self.mesh, cotan=self.use_cotan, connection=self.conn, order=self.order)",
+                  f"found `{au.src(lap)[:120]}`: the field of order n is harmonic for the connection Laplacian of order n "
+                  "(the default order 4 is wrong for every other order)", note=f"{want_fn}(connection=self.conn, order=self.order)")
+    # ---- F1: the partition
+    if fixed is None:
+        ctx.undecided("C18-F1", site, f"{cls}.optimize: the list of constrained (fixed) elements is not recognised", "")
+        return
+    all_ids = {"faces": ("self.mesh.id_faces", "self.mesh.faces"), "vertices": ("self.mesh.id_vertices", "self.mesh.vertices")}[elem]
+    marks = {"name": None}
+
+    def atom(x, boolean):
+        if elem == "vertices" and isinstance(x, ast.Compare) and len(x.ops) == 1 and isinstance(x.ops[0], (ast.In, ast.NotIn)) \
+                and isinstance(x.left, ast.Name) and au.src(x.comparators[0]) == "self.feat.feature_vertices":
+            n = H.name("constrained")
+            return n if isinstance(x.ops[0], ast.In) else ast.UnaryOp(op=ast.Not(), operand=n)
+        if elem == "vertices" and isinstance(x, ast.Call) and au.call_tail(x) == "is_vertex_on_border" and len(x.args) == 1:
+            return H.name("on_the_border")
+        if elem == "vertices" and isinstance(x, ast.Compare) and len(x.ops) == 1 and isinstance(x.ops[0], (ast.In, ast.NotIn)) \
+                and isinstance(x.left, ast.Name) and au.src(x.comparators[0]) in ("self.mesh.boundary_vertices", "self.mesh.interior_vertices"):
+            n = H.name("on_the_border")
+            pos = isinstance(x.ops[0], ast.In) == (au.src(x.comparators[0]) == "self.mesh.boundary_vertices")
+            return n if pos else ast.UnaryOp(op=ast.Not(), operand=n)
+        if elem == "faces" and boolean and isinstance(x, ast.Subscript) and isinstance(x.value, ast.Name) and isinstance(x.slice, ast.Name):
+            if marks["name"] in (None, x.value.id):
+                marks["name"] = x.value.id
+                return H.name("constrained")
+        if elem == "faces" and isinstance(x, ast.Compare) and len(x.ops) == 1 and isinstance(x.ops[0], (ast.In, ast.NotIn)) \
+                and isinstance(x.left, ast.Name) and isinstance(x.comparators[0], ast.Name):
+            if marks["name"] in (None, x.comparators[0].id):
+                marks["name"] = x.comparators[0].id
+                n = H.name("constrained")
+                return n if isinstance(x.ops[0], ast.In) else ast.UnaryOp(op=ast.Not(), operand=n)
+        return None
+    part_ok = True
+    for lst, spec in ((free, "not constrained"), (fixed, "constrained")):
+        apps = [c for c in au.calls(fn) if au.call_tail(c) == "append" and isinstance(c.func, ast.Attribute) and H.is_name(c.func.value, lst) and len(c.args) == 1]
+        d = S.value(lst, au.enclosing_stmt(c0))
+        if not apps and d is not None and H.is_empty_container(d) == "list":
+            ctx.fail("C18-F1", s0site, f"{cls}.optimize: the {'free' if lst == free else 'fixed'} index list is never filled",
+                     "constrained elements must be kept out of the unknowns and every other element solved for")
+            part_ok = False
+            continue
+        if not apps or d is None or H.is_empty_container(d) != "list" or len({id((H.for_ancestors(c, stop=fn) or [None])[0]) for c in apps}) != 1:
+            ctx.undecided("C18-F1", site, f"{cls}.optimize: the filling of the {'free' if lst == free else 'fixed'} index list is not recognised", "")
+            part_ok = False
+            continue
+        a = apps[0]
+        lps = H.for_ancestors(a, stop=fn)
+        if len(lps) != 1:
+            ctx.undecided("C18-F1", ctx.site(mod, fn0, a), f"{cls}.optimize: an index list is not filled in a single loop over the elements", "")
+            part_ok = False
+            continue
+        elem_t, idx, seq, start = H.loop_elem(lps[0])
+        seqc = S.canon(seq, lps[0])
+        x = elem_t.id if isinstance(elem_t, ast.Name) and idx is None else None
+        dom_ok = x is not None and (au.src(seqc) == all_ids[0] or H.is_range_len(seqc, all_ids[1])) and all(H.is_name(c.args[0], x) for c in apps)
+        if x is not None and au.src(seqc) in ("self.mesh.interior_vertices", "self.mesh.boundary_vertices", "self.feat.feature_vertices",
+                                             "self.mesh.interior_faces", "self.mesh.boundary_faces"):
+            ctx.fail("C18-F1", ctx.site(mod, fn0, lps[0]), f"{cls}.optimize: the partition does not classify every element of {all_ids[0]}",
+                     f"the loop ranges over `{au.src(seqc)}`: an unclassified element is neither solved for nor kept")
+            part_ok = False
+            continue
+        if not dom_ok:
+            ctx.undecided("C18-F1", ctx.site(mod, fn0, lps[0]), f"{cls}.optimize: an index list is not filled from a loop over all {elem}", f"found `{au.src(seqc)[:60]}`")
+            part_ok = False
+            continue
+        ab = H.Abs(atom)
+        alts = [ab.boolean(H.conj(H.alias_conds(S, c, stop=lps[0]))) for c in apps]
+        code = alts[0] if len(alts) == 1 else ast.BoolOp(op=ast.Or(), values=alts)
+        if ab.unknown:
+            ctx.undecided("C18-F1", ctx.site(mod, fn0, a), f"{cls}.optimize: the predicate of the free/fixed partition is not recognised", f"{ab.unknown}")
+            part_ok = False
+            continue
+        wit, n = H.compare(code, spec)
+        ok = ctx.check(wit is None, "C18-F1", ctx.site(mod, fn0, a),
+                       f"{cls}.optimize: the {'free' if lst == free else 'fixed'} list does not receive exactly the {'un' if lst == free else ''}constrained elements",
+                       f"an element enters the list when `{au.src(code)}`: constrained elements must be kept out of the unknowns and every other element solved for",
+                       note=f"{'free' if lst == free else 'fixed'} <=> {spec}")
+        part_ok = part_ok and ok
+        # no later modification of the list
+        later = [c for c in au.calls(fn) if isinstance(c.func, ast.Attribute) and H.is_name(c.func.value, lst)
+                 and c.func.attr in ("extend", "pop", "remove", "insert", "clear", "sort", "reverse")]
+        if later:
+            ctx.undecided("C18-F1", ctx.site(mod, fn0, later[0]), f"{cls}.optimize: an index list of the partition is modified after it was filled", "")
+    # ---- faces: the marks are exactly the faces on both sides of every feature edge
+    if elem == "faces" and part_ok:
+        A = marks["name"]
+        for _ in range(6):      # follow plain copies  a = b  back to the name the container was created under
+            defs = [st_ for st_ in au.stmts(fn.body) if isinstance(st_, ast.Assign) and any(H.is_name(t, A) for t in st_.targets)]
+            if len(defs) == 1 and isinstance(defs[0].value, ast.Name):
+                A = defs[0].value.id
+            else:
+                break
+        msite = ctx.site(mod, fn0)
+        adef = S.value(A, au.enclosing_stmt(c0)) if A else None
+        fresh = (isinstance(adef, ast.Call) and au.call_tail(adef) in ("create_attribute", "Attribute", "zeros", "dict", "defaultdict")) \
+            or (adef is not None and H.is_empty_container(adef) in ("set", "dict", "attr"))
+        sides, bad, unknown, wrong_dom, wrong_guard = set(), [], [], [], []
+        mark_sites = [(st, tgt, val) for st, tgt, val in H.subscript_stores(fn, lambda q: H.is_name(q, A))]
+        for c in au.calls(fn):
+            if au.call_tail(c) == "add" and isinstance(c.func, ast.Attribute) and H.is_name(c.func.value, A) and len(c.args) == 1:
+                mark_sites.append((au.enclosing_stmt(c), ast.Subscript(value=c.func.value, slice=c.args[0], ctx=ast.Store()), ast.Constant(value=True)))
+        for st, tgt, val in mark_sites:
+            if not (isinstance(st, (ast.Assign, ast.Expr)) and au.const(S.canon(val, st)) is True):
+                bad.append(st)
+                continue
+            lps = H.for_ancestors(st, stop=fn)
+            fe = next((l for l in lps if au.src(S.canon(H.loop_elem(l)[2], l)) == "self.feat.feature_edges" and isinstance(H.loop_elem(l)[0], ast.Name)
+                       and H.loop_elem(l)[1] is None), None)
+            if fe is None:
+                other = next((l for l in lps if au.src(S.canon(H.loop_elem(l)[2], l)) in ("self.mesh.boundary_edges", "self.mesh.interior_edges", "self.mesh.id_edges")), None)
+                if other is not None:
+                    wrong_dom.append(au.src(S.canon(H.loop_elem(other)[2], other)))
+                else:
+                    unknown.append(st)
+                continue
+            e = fe.target.id
+            E0, E1 = f"self.mesh.edges[{e}][0]", f"self.mesh.edges[{e}][1]"
+            F1, F2 = f"self.mesh.connectivity.direct_face({E0}, {E1})", f"self.mesh.connectivity.direct_face({E1}, {E0})"
+            inner = [l for l in lps if l is not fe]
+            key = au.src(S.canon(tgt.slice, st, keep=tuple(H.loop_elem(l)[0].id for l in inner if isinstance(H.loop_elem(l)[0], ast.Name))))
+            conds = S.conds(st, stop=fe)
+
+            def guards_not_none(which):
+                ok = False
+                for t, p in conds:
+                    t2, p2 = au.strip_not(t, p)
+                    if isinstance(t2, ast.Compare) and len(t2.ops) == 1 and isinstance(t2.comparators[0], ast.Constant) and t2.comparators[0].value is None \
+                            and au.src(t2.left) in which and ((isinstance(t2.ops[0], ast.IsNot) and p2) or (isinstance(t2.ops[0], ast.Is) and not p2)):
+                        ok = True
+                    else:
+                        return False
+                return ok
+            if key == F1 and guards_not_none((F1,)):
+                sides.add(0)
+            elif key == F2 and guards_not_none((F2,)):
+                sides.add(1)
+            elif (key == F1 and guards_not_none((F2,))) or (key == F2 and guards_not_none((F1,))):
+                wrong_guard.append(st)
+            elif len(inner) == 1 and isinstance(inner[0].target, ast.Name) and key == inner[0].target.id:
+                ic = S.canon(inner[0].iter, inner[0])
+                if isinstance(ic, ast.Call) and au.call_tail(ic) == "edge_to_faces" and {au.src(z) for z in ic.args} == {E0, E1} \
+                        and guards_not_none((key,)) and not H.path_condition(inner[0], stop=fe):
+                    sides |= {0, 1}
+                else:
+                    unknown.append(st)
+            else:
+                unknown.append(st)
+        if not mark_sites:
+            ctx.undecided("C18-F1", msite, f"{cls}.optimize: the marking of the constrained faces is not recognised", "")
+        elif wrong_dom:
+            ctx.fail("C18-F1", msite, f"{cls}.optimize: `fixed` does not mark exactly the faces on both sides of every feature edge",
+                     f"the marks are set in a loop over `{wrong_dom[0]}` instead of self.feat.feature_edges: every face adjacent to a border / feature edge "
+                     "carries a constraint and must be kept fixed")
+        elif wrong_guard:
+            ctx.fail("C18-F1", ctx.site(mod, fn0, wrong_guard[0]), f"{cls}.optimize: `fixed` does not mark exactly the faces on both sides of every feature edge",
+                     "a face is marked under the `is not None` test of the face on the other side of the edge")
+        elif not fresh or unknown:
+            ctx.undecided("C18-F1", msite, f"{cls}.optimize: the marking of the constrained faces is not recognised", "")
+        elif bad:
+            ctx.fail("C18-F1", ctx.site(mod, fn0, bad[0]), f"{cls}.optimize: a mark of the constrained faces is not the constant True", "")
+        else:
+            ctx.check(sides == {0, 1}, "C18-F1", msite, f"{cls}.optimize: `fixed` does not mark exactly the faces on both sides of every feature edge",
+                      f"sides of a feature edge that are marked: {sorted(sides)}: every face adjacent to a border / feature edge carries a constraint and must be kept fixed",
+                      note="fixed <=> face adjacent to a feature edge (both sides marked)")
+    # ---- stores into self.var on the constrained path: every store that is not in a branch excluded by the conditions of the first solve
+    here = {(id(t), p) for t, p, _ in H.path_condition(c0, stop=fn)}
+    stores = []
+    for st, k, idx in _var_stores(fn.body):
+        there = {(id(t), p) for t, p, _ in H.path_condition(st, stop=fn)}
+        if any((i, not p) in here for i, p in there):
+            continue
+        stores.append((st, k, idx))
+    if not stores:
+        ctx.undecided("C18-F1", s0site, f"{cls}.optimize: no store into self.var on the constrained path is recognised", "")
+    for st, k, idx in stores:
+        idx_c = S.canon(idx, st, keep=keep) if idx is not None and not isinstance(idx, ast.Slice) else idx
+        ok = k == "index" and H.is_name(idx_c, free)
+        whole = k == "rebind" or (k == "index" and isinstance(idx, ast.Slice) and idx.lower is None and idx.upper is None)
+        if not ok and not whole and not (k == "index" and isinstance(idx_c, ast.Name) and idx_c.id in acc):
+            ctx.undecided("C18-F1", ctx.site(mod, fn0, st), f"{cls}.optimize: the index of a store into self.var on the constrained path is not recognised", "")
+            continue
+        ctx.check(ok, "C18-F1", ctx.site(mod, fn0, st),
+                  f"{cls}.optimize: a store into self.var on the constrained path is not indexed by the free list",
+                  f"`{au.src(st)[:80]}` overwrites constrained elements: the field must leave every constrained element at its constraint",
+                  note="self.var[free] = ...")
+
+
+# ------------------------------------------------------------------------------ C18-N1
+def _writes_var(node):
+    if isinstance(node, (ast.Assign, ast.AugAssign, ast.AnnAssign)):
+        for t in au.assign_targets(node):
+            for x in ast.walk(t):
+                if au.is_self_attr(x, "var") and isinstance(x.ctx, ast.Store):
+                    return True
+                if isinstance(x, ast.Subscript) and isinstance(x.ctx, ast.Store) and au.is_self_attr(x.value, "var"):
+                    return True
+    return False
+
+
+def _clean_flow(ctx, mod, cls_qual, fn, depth=0, init=("clean",)):
+    """must-fact `clean`: self.var has unit modulus entries (normalize() was applied after the last write)"""
+    mod_o = ctx.repo.module(mod)
+    methods = ctx.repo.methods(mod_o, ctx.repo.cls(mod, cls_qual))
+
+    def helper(call):
+        """effect of self.m(): 'gen' / 'kill' / None"""
+        if not (isinstance(call.func, ast.Attribute) and au.is_self_attr(call.func)):
+            return None
+        name = call.func.attr
+        if name == "normalize":
+            return "gen"
+        if depth >= 2 or name not in methods:
+            return None
+        m, f, o = methods[name]
+        touches = any(_writes_var(n) for n in au.walk(f)) or any(au.call_tail(c) == "normalize" for c in au.calls(f))
+        if not touches:
+            return None
+        fl = _clean_flow(ctx, m.name, o._qualname, f, depth + 1, init=())
+        exits = [s for k, n, s in fl.exits if k in ("fall", "return")]
+        return "gen" if exits and all("clean" in s for s in exits) else "kill"
+
+    def normalises(node):
+        """self.var[...] /= abs(self.var[...])   /   self.var = self.var / np.abs(self.var)"""
+        if isinstance(node, ast.AugAssign) and isinstance(node.op, ast.Div):
+            t, v = node.target, node.value
+        elif isinstance(node, ast.Assign) and len(node.targets) == 1 and isinstance(node.value, ast.BinOp) and isinstance(node.value.op, ast.Div) \
+                and au.src(node.value.left) == au.src(node.targets[0]):
+            t, v = node.targets[0], node.value.right
+        else:
+            return False
+        base = t.value if isinstance(t, ast.Subscript) else t
+        return au.is_self_attr(base, "var") and isinstance(v, ast.Call) and au.call_tail(v) in ("abs", "absolute") and len(v.args) == 1 \
+            and au.src(v.args[0]) == au.src(t)
+
+    def gen_kill(node):
+        g, k = set(), set()
+        if normalises(node):
+            return {"clean"}, set()
+        if _writes_var(node):
+            k.add("clean")
+        for c in au.calls(node):
+            h = helper(c)
+            if h == "gen" and isinstance(node, ast.Expr) and node.value is c:
+                g.add("clean")
+                k.discard("clean")
+            elif h == "kill":
+                k.add("clean")
+        return g, k
+
+    return H.must_flow(fn.body, gen_kill, init=init)
+
+
+def _normalize_eval(ctx):
+    """abstract evaluation of FrameField.normalize on a five-entry vector -> list of problems"""
+    data = [3 + 4j, 0j, -2j, 0.5 + 0j, -1.5 + 2j, 1e-14 + 0j, 3e-6 - 4e-6j, 2e-9j]
+
+    def hook(path):
+        if path == "self.var":
+            return E.Arr(list(data))
+        if path.startswith("self.") and path.count(".") == 1:
+            for cmod, ccls in ((FACES, "FrameField2DFaces"), (VERTS, "FrameField2DVertices")):
+                d = hj_scope.attr_default(ctx.repo, cmod, ccls, path[5:])
+                if isinstance(d, ast.Constant):
+                    return d.value
+        return E.MISSING
+    selfo = E.Obj("self", hook)
+    it = E.Interp(ctx.repo, FBASE, obj_hook=hook, obj_class={"self": (FBASE, "FrameField")})
+    it.call_function(ctx.repo.func(FBASE, "FrameField.normalize"), [selfo])
+    out = selfo.get("var")
+    if not isinstance(out, E.Arr) or len(out) != len(data):
+        raise E.Unsupported("self.var is not a vector of the same length after normalize()")
+    problems = []
+    for i, (a, b) in enumerate(zip(data, out.d)):
+        if not isinstance(b, (int, float, complex)) or b != b:
+            problems.append(f"entry {i} becomes {b!r}")
+        elif abs(a) > 1e-9:
+            want = a / abs(a)
+            if abs(complex(b) - want) > 1e-9:
+                problems.append(f"entry {a} becomes {complex(b):.4g} instead of {want:.4g}")
+    # a field that was never initialised
+    selfn = E.Obj("self", lambda p: None if p == "self.var" else E.MISSING)
+    it.call_function(ctx.repo.func(FBASE, "FrameField.normalize"), [selfn])
+    return problems
+
+
+def n1_normalize(ctx):
+    for mod, cls, elem in OPTIMIZERS:
+        fn0 = ctx.repo.func(mod, f"{cls}.optimize")
+        fn, S, nz = H.norm_fn(ctx, mod, f"{cls}.optimize", keep=("normalize", "log", "warn", "_compute_attach_weight"))
+        f = _clean_flow(ctx, mod, cls, fn)
+        if not _var_stores(fn.body):
+            ctx.undecided("C18-N1", ctx.site(mod, fn0), f"{cls}.optimize: no write to self.var is recognised", "")
+            continue
+        for kind, node, state in f.exits:
+            if kind == "raise":
+                continue
+            label = "end of the method" if kind == "fall" else "return"
+            ctx.check("clean" in state, "C18-N1", ctx.site(mod, fn0, node) if node is not None else ctx.site(mod, fn0),
+                      f"{cls}.optimize: a path reaches the {label} with self.var written but not normalised",
+                      "the field must have unit modulus on every element: the solution of a linear system / eigenproblem has arbitrary modulus "
+                      "until self.normalize() is applied after the last write",
+                      note=f"{cls}.optimize: normalize() follows the last write ({label})")
+    # ---- normalize itself, evaluated on a small vector
+    nfn = ctx.repo.func(FBASE, "FrameField.normalize")
+    nsite = ctx.site(FBASE, nfn)
+    try:
+        problems = _normalize_eval(ctx)
+        ctx.check(not problems, "C18-N1", nsite, "FrameField.normalize does not divide every (non-zero) entry of self.var by its modulus",
+                  "on the vector [3+4j, 0, -2j, 0.5, -1.5+2j, 1e-14, (3-4j)e-6, 2e-9j]: " + "; ".join(problems[:3]) + ": normalize() is the only place where unit modulus is established; "
+                  "entries may only be skipped when their modulus is (numerically) zero",
+                  note="normalize: every non-zero entry ends with modulus 1 and its phase (evaluated on 6 entries)")
+    except (E.Unsupported, RecursionError) as ex:
+        ctx.undecided("C18-N1", nsite, "FrameField.normalize cannot be evaluated", f"abstract evaluation stops at: {ex}")
+    except E.Raised as ex:
+        ctx.fail("C18-N1", nsite, "FrameField.normalize raises on a vector that contains a zero entry / on an uninitialised field", str(ex))
+    # ---- vertex constraint initialisation ends with a normalisation of the accumulated constraints
+    fn0 = ctx.repo.func(VERTS, "_BaseFrameField2DVertices._initialize_variables")
+    site = ctx.site(VERTS, fn0)
+    fn, S, nz = H.norm_fn(ctx, VERTS, "_BaseFrameField2DVertices._initialize_variables", keep=("normalize",))
+    accs = [st for st in au.stmts(fn.body) if isinstance(st, ast.AugAssign) and isinstance(st.op, ast.Add) and isinstance(st.target, ast.Subscript)
+            and au.is_self_attr(st.target.value, "var")] + \
+           [st for st in au.stmts(fn.body) if isinstance(st, ast.Assign) and au.increment(st) is not None and isinstance(st.targets[0], ast.Subscript)
+            and au.is_self_attr(st.targets[0].value, "var")]
+    if not accs:
+        ctx.undecided("C18-N1", site, "_initialize_variables (vertices): the accumulation of the edge constraints into self.var is not recognised", "")
+        return
+    last_top = max(H.block_pos(H.top_stmt_in(fn.body, a)) for a in accs)
+    norm_found = None
+    for s in fn.body[last_top + 1:]:
+        if isinstance(s, ast.Expr) and isinstance(s.value, ast.Call) and au.is_self_attr(s.value.func, "normalize"):
+            norm_found = "call"
+        if isinstance(s, ast.For):
+            elem_t, idx, seq, start = H.loop_elem(s)
+            x = elem_t.id if isinstance(elem_t, ast.Name) else None
+            sc = au.src(S.canon(seq, s))
+            for q in au.stmts(s.body):
+                tgt = q.target if isinstance(q, ast.AugAssign) else (q.targets[0] if isinstance(q, ast.Assign) and len(q.targets) == 1 else None)
+                if tgt is None or not (isinstance(tgt, ast.Subscript) and au.is_self_attr(tgt.value, "var") and H.is_name(tgt.slice, x)):
+                    continue
+                div = None
+                if isinstance(q, ast.AugAssign) and isinstance(q.op, ast.Div):
+                    div = q.value
+                elif isinstance(q, ast.Assign) and isinstance(q.value, ast.BinOp) and isinstance(q.value.op, ast.Div) and au.src(q.value.left) == au.src(tgt):
+                    div = q.value.right
+                if div is not None and au.src(S.canon(div, q, keep=(x,))) in (f"abs(self.var[{x}])", f"np.abs(self.var[{x}])"):
+                    if sc in ("self.feat.feature_vertices", "self.mesh.id_vertices") or H.is_range_len(S.canon(seq, s), "self.mesh.vertices") \
+                            or sc in ("range(self.var.size)", "range(len(self.var))"):
+                        norm_found = "loop"
+    if norm_found:
+        ctx.ok("C18-N1", site, "vertex constraints normalised after the accumulation")
+    else:
+        later_calls = [c for s in fn.body[last_top + 1:] for c in au.calls(s)]
+        later_writes = [s for s in fn.body[last_top + 1:] if _var_stores([s])]
+        # a caller may normalise right after the initialisation (initialize(): _initialize_variables(); normalize())
+        caller_norm = False
+        m = ctx.repo.module(VERTS)
+        for q, f in m.funcs.items():
+            cs = [c for c in au.calls(f) if au.is_self_attr(c.func, "_initialize_variables")]
+            for c in cs:
+                st0 = H.top_stmt_in(f.body, c)
+                if st0 is not None and any(au.is_self_attr(c2.func, "normalize") for s2 in f.body[H.block_pos(st0) + 1:] for c2 in au.calls(s2)):
+                    caller_norm = True
+        if caller_norm:
+            ctx.undecided("C18-N1", site, "_initialize_variables (vertices): the constraints are normalised by a caller, not at the end of the initialisation", "")
+        elif not later_calls and not later_writes:
+            ctx.fail("C18-N1", site, "_initialize_variables (vertices): the accumulated constraints are not normalised per feature vertex at the end",
+                     "a vertex with two feature edges accumulates two unit numbers; the constraint must be brought back to unit modulus before it "
+                     "enters the right-hand side of the linear system")
+        else:
+            ctx.undecided("C18-N1", site, "_initialize_variables (vertices): the normalisation of the accumulated constraints is not recognised", "")
+
+
+# ------------------------------------------------------------------------------ C18-P1
+def _tr_key(t):
+    """(x, y) sources if t is <...>._transport[(x, y)]"""
+    if isinstance(t, ast.Subscript) and isinstance(t.value, ast.Attribute) and t.value.attr == "_transport" \
+            and isinstance(t.slice, ast.Tuple) and len(t.slice.elts) == 2:
+        return au.src(t.slice.elts[0]), au.src(t.slice.elts[1])
+    return None
+
+
+def _pairing(ctx, mod, qual):
+    fn0 = ctx.repo.func(mod, qual)
+    site = ctx.site(mod, fn0)
+    fn, S, nz = H.norm_fn(ctx, mod, qual, unroll=False)
+    stores = []   # (stmt, key, delta-kind, value)
+    for st in au.stmts(fn.body):
+        if isinstance(st, ast.Assign) and len(st.targets) == 1 and _tr_key(st.targets[0]):
+            stores.append((st, _tr_key(st.targets[0]), "set", st.value))
+        elif isinstance(st, ast.AugAssign) and _tr_key(st.target) and isinstance(st.op, (ast.Add, ast.Sub)):
+            v = st.value if isinstance(st.op, ast.Add) else ast.UnaryOp(op=ast.USub(), operand=st.value)
+            stores.append((st, _tr_key(st.target), "delta", v))
+    if not stores:
+        ctx.undecided("C18-P1", site, f"{qual}: the stores into the transport table are not recognised", f"after inlining {sorted(set(nz.inlined))}")
+        return
+    key_names = tuple(sorted({n.id for st_, k_, kind_, v_ in stores for t_ in au.assign_targets(st_) for n in ast.walk(t_.slice) if isinstance(n, ast.Name)}))
+
+    def value_poly(st, v, depth=0):
+        """polynomial of the stored value; reads of _transport[(a,b)] stored earlier in the same block are replaced by that value"""
+        blk, _ = au.enclosing_block(st)
+        env_reads = {}
+        for s2, k2, kind2, v2 in stores:
+            b2, _ = au.enclosing_block(s2)
+            if b2 is blk and kind2 == "set" and H.block_pos(s2) < H.block_pos(st):
+                env_reads[k2] = (s2, v2)
+        rv = S.canon(v, st, keep=key_names)
+
+        def atom_of(x):
+            k = _tr_key(x)
+            if k is not None and k in env_reads and depth < 4:
+                s2, v2 = env_reads[k]
+                return value_poly(s2, v2, depth + 1)
+            return None
+        return _poly_with(rv, atom_of)
+
+    for st, key, kind, v in stores:
+        x, y = key
+        ssite = ctx.site(mod, fn0, st)
+        partner = [(s2, v2) for s2, k2, kind2, v2 in stores if k2 == (y, x) and kind2 == kind and H.in_same_block(s2, st)]
+        if x == y:
+            ctx.undecided("C18-P1", ssite, f"{qual}: a store into the transport table has twice the same element as key", "")
+            continue
+        if len(partner) != 1:
+            # a loop that visits every ordered pair (both orientations) needs no partner in the block: not decided here
+            anywhere = [1 for s2, k2, kind2, v2 in stores if k2 == (y, x)]
+            lps_ = H.for_ancestors(st, stop=fn)
+            undirected = bool(lps_) and any(au.src(S.canon(H.loop_elem(l)[2], l)) in ("self.mesh.interior_edges", "self.mesh.edges", "self.mesh.id_edges",
+                                                                                    "self.mesh.boundary_edges", "self.feat.feature_edges") for l in lps_)
+            if anywhere or len(partner) > 1 or not undirected:
+                ctx.undecided("C18-P1", ssite, f"{qual}: the partner of a store into the transport table is not in the same block", "")
+            else:
+                ctx.fail("C18-P1", ssite, f"{qual}: store into _transport[(a,b)] has no partner _transport[(b,a)] in the same block",
+                         "parallel transport must be antisymmetric: transport(y, x) = -transport(x, y); otherwise the connection Laplacian is not Hermitian "
+                         "and the field depends on the orientation in which an edge is visited")
+            continue
+        p1 = value_poly(st, v)
+        p2 = value_poly(partner[0][0], partner[0][1])
+        ctx.check((p1 + p2).is_zero(), "C18-P1", ssite,
+                  f"{qual}: the two orientations of a pair stored in the transport table are not opposite",
+                  f"values `{au.src(v)[:60]}` and `{au.src(partner[0][1])[:60]}` sum to {p1 + p2!r} instead of 0",
+                  note=f"{qual}: tr[(a,b)] = -tr[(b,a)]")
+
+
 def p1_transport(ctx):
-    fl = H.Floor(ctx, "C18-P1")
-    _pairing(ctx, CONN, "SurfaceConnectionFaces._initialize", 1)
-    _pairing(ctx, CONN, "SurfaceConnectionEdges._initialize", 3)
-    _pairing(ctx, VERTS, "FrameField2DVertices._modify_parallel_transport", 1)
+    _pairing(ctx, CONN, "SurfaceConnectionFaces._initialize")
+    _pairing(ctx, CONN, "SurfaceConnectionEdges._initialize")
+    _pairing(ctx, VERTS, "FrameField2DVertices._modify_parallel_transport")
     # reader
-    fn = ctx.repo.func(CONN, "SurfaceConnection.transport")
+    fn0 = ctx.repo.func(CONN, "SurfaceConnection.transport")
+    fn, S, nz = H.norm_fn(ctx, CONN, "SurfaceConnection.transport")
     ps = au.params(fn, skip_self=True)
-    rets = [r for r in au.walk(fn) if isinstance(r, ast.Return)]
-    ok = len(ps) == 2 and len(rets) == 1 and _tr_key(rets[0].value) == (ps[0], ps[1]) and au.is_self_attr(rets[0].value.value, "_transport")
-    ctx.check(ok, "C18-P1", ctx.site(CONN, fn), "SurfaceConnection.transport(a, b) does not read self._transport[(a, b)]",
-              "a swapped key negates every transport angle seen by the Laplacians", note="transport(a,b) = tr[(a,b)]")
-    fl.require(11)
+    rets = [r for r in au.walk(fn) if isinstance(r, ast.Return) and r.value is not None]
+    site = ctx.site(CONN, fn0)
+    if len(ps) != 2 or len(rets) != 1:
+        ctx.undecided("C18-P1", site, "SurfaceConnection.transport(a, b): signature / single return not recognised", "")
+        return
+    k = _tr_key(S.canon(rets[0].value, rets[0]))
+    if k == (ps[0], ps[1]):
+        ctx.ok("C18-P1", site, "transport(a,b) = tr[(a,b)]")
+    elif k == (ps[1], ps[0]):
+        ctx.fail("C18-P1", site, "SurfaceConnection.transport(a, b) does not read self._transport[(a, b)]",
+                 "the key is swapped: every transport angle seen by the Laplacians is negated")
+    else:
+        ctx.undecided("C18-P1", site, "SurfaceConnection.transport(a, b): the value returned is not recognised as a read of the transport table", "")
 
 
 # ------------------------------------------------------------------------------ C18-E1
@@ -564,58 +716,68 @@ def _evenness_guarded(node, expo, fn):
 
 
 def e1_even_power(ctx):
-    fl = H.Floor(ctx, "C18-E1")
     for mod, qual in ((FACES, "_BaseFrameField2DFaces._initialize_variables"), (VERTS, "_BaseFrameField2DVertices._initialize_variables")):
-        fn = ctx.repo.func(mod, qual)
-        site = ctx.site(mod, fn)
-        # sources: D = <...>.vertices[b] - <...>.vertices[a]   with a, b unpacked from <...>.edges[e]
-        pairs = set()
-        for st in au.stmts(fn.body):
-            if isinstance(st, ast.Assign) and len(st.targets) == 1 and isinstance(st.targets[0], (ast.Tuple, ast.List)) \
-                    and len(st.targets[0].elts) == 2 and all(isinstance(x, ast.Name) for x in st.targets[0].elts) \
-                    and isinstance(st.value, ast.Subscript) and isinstance(st.value.value, ast.Attribute) and st.value.value.attr == "edges":
-                pairs.add(frozenset(x.id for x in st.targets[0].elts))
+        fn0 = ctx.repo.func(mod, qual)
+        site = ctx.site(mod, fn0)
+        fn, S, nz = H.norm_fn(ctx, mod, qual, keep=("normalize",), unroll=False)
+        # sources: D = <...>.vertices[b] - <...>.vertices[a]   with a, b the endpoints <...>.edges[e][k]
 
-        def is_source(e):
+        def endpoint(x, at):
+            c = S.canon(x, at)
+            return isinstance(c, ast.Subscript) and isinstance(c.value, ast.Subscript) and isinstance(c.value.value, ast.Attribute) \
+                and c.value.value.attr == "edges" and au.const(c.slice) in (0, 1)
+
+        def is_source(e, at):
             if isinstance(e, ast.BinOp) and isinstance(e.op, ast.Sub):
+                e = S.canon(e, at)
                 l, r = e.left, e.right
-                if all(isinstance(x, ast.Subscript) and isinstance(x.value, ast.Attribute) and x.value.attr == "vertices"
-                       and isinstance(x.slice, ast.Name) for x in (l, r)):
-                    return frozenset((l.slice.id, r.slice.id)) in pairs
+                if all(isinstance(x, ast.Subscript) and isinstance(x.value, ast.Attribute) and x.value.attr == "vertices" for x in (l, r)):
+                    ep = lambda c: isinstance(c, ast.Subscript) and isinstance(c.value, ast.Subscript) and isinstance(c.value.value, ast.Attribute) \
+                        and c.value.value.attr == "edges" and au.const(c.slice) in (0, 1)
+                    return ep(l.slice) and ep(r.slice)
             return False
 
         pows = []
 
-        def taint_of(e, tainted):
+        def taint_of(e, tainted, at):
             """does e carry the sign of a stored edge direction (even powers cleanse)"""
             if isinstance(e, ast.BinOp) and isinstance(e.op, ast.Pow):
-                if taint_of(e.left, tainted):
+                if taint_of(e.left, tainted, at):
                     pows.append(e)
                 return False
             if isinstance(e, ast.Call) and au.call_tail(e) in ("abs", "norm", "len"):
                 for a in e.args:
-                    taint_of(a, tainted)      # still visit nested powers
+                    taint_of(a, tainted, at)      # still visit nested powers
                 return False
-            if is_source(e):
+            if is_source(e, at):
                 return True
             if isinstance(e, ast.Name):
                 return e.id in tainted
-            return any(taint_of(c, tainted) for c in ast.iter_child_nodes(e) if isinstance(c, ast.expr))
+            return any(taint_of(c, tainted, at) for c in ast.iter_child_nodes(e) if isinstance(c, ast.expr))
 
         tainted = set()
-        for _ in range(6):
+        for _ in range(8):
             before = len(tainted)
             for st in au.stmts(fn.body):
                 if isinstance(st, ast.Assign):
-                    if taint_of(st.value, tainted):
+                    if taint_of(st.value, tainted, st):
                         for t in st.targets:
                             for n in au.assigned_names(t):
                                 tainted.add(n)
             if len(tainted) == before:
                 break
-        if not tainted:
-            ctx.fail("C18-E1", site, f"{qual}: edge direction `vertices[b] - vertices[a]` of a feature edge not found",
-                     "the constraint is documented as tangent to the border / feature edge")
+        var_stores = [st for st, k, idx in _var_stores(fn.body) if k == "index"]
+        if not tainted and not any(taint_of(getattr(st, "value", None), tainted, st) for st in var_stores if getattr(st, "value", None) is not None):
+            # no edge direction at all: constants stored as constraints are a recognised contradiction
+            consts = [st for st in var_stores if isinstance(st, ast.Assign) and H.for_ancestors(st, stop=fn)
+                      and isinstance(hj_scope.fold(S.canon(st.value, st)) if not isinstance(S.canon(st.value, st), ast.Call) else _const_complex(S.canon(st.value, st)), (int, float, complex))]
+            if consts:
+                ctx.fail("C18-E1", ctx.site(mod, fn0, consts[0]), f"{qual}: the constraint stored for a feature element is a constant, not computed from the direction of the edge",
+                         "the constrained frame must have a branch tangent to the border / feature edge in the local basis of the element, whatever "
+                         "connection (local bases) the field was given")
+            else:
+                ctx.undecided("C18-E1", site, f"{qual}: the edge direction `vertices[b] - vertices[a]` of a feature edge is not recognised",
+                              "the constraint is documented as tangent to the border / feature edge")
             continue
         pows.clear()
         leaks = []
@@ -623,35 +785,140 @@ def e1_even_power(ctx):
             val = getattr(st, "value", None)
             if val is None or not isinstance(st, (ast.Assign, ast.AugAssign)):
                 continue
-            t = taint_of(val, tainted)
+            t = taint_of(val, tainted, st)
             if t and any(isinstance(x, ast.Subscript) and au.is_self_attr(x.value, "var") for tg in au.assign_targets(st) for x in ast.walk(tg)):
                 leaks.append(st)
         for st in leaks:
-            ctx.fail("C18-E1", ctx.site(mod, fn, st), f"{qual}: the stored direction of an edge enters self.var without going through a power",
-                     f"`{au.src(st)}`: reversing the stored orientation of the edge (renumbering its endpoints) negates the constraint")
+            ctx.fail("C18-E1", ctx.site(mod, fn0, st), f"{qual}: the stored direction of an edge enters self.var without going through a power",
+                     f"`{au.src(st)[:80]}`: reversing the stored orientation of the edge (renumbering its endpoints) negates the constraint")
         seen = set()
         for pw in pows:
             if id(pw) in seen:
                 continue
             seen.add(id(pw))
             ok = _even_exponent(pw.right) or _evenness_guarded(pw, pw.right, fn)
-            ctx.check(ok, "C18-E1", ctx.site(mod, fn, pw),
+            if not ok and not isinstance(pw.right, (ast.Constant, ast.Attribute, ast.Name)):
+                ctx.undecided("C18-E1", ctx.site(mod, fn0, pw), f"{qual}: the exponent applied to the direction of a stored edge is not recognised", "")
+                continue
+            ctx.check(ok, "C18-E1", ctx.site(mod, fn0, pw),
                       f"{qual}: the direction of a stored edge is raised to a power that can be odd",
-                      f"`{au.src(pw)}`: the edge is stored as (a, b) with an orientation that depends on the vertex numbering; (-c)**k = c**k only for even k, "
+                      f"`{au.src(pw)[:80]}`: the edge is stored as (a, b) with an orientation that depends on the vertex numbering; (-c)**k = c**k only for even k, "
                       "so with an odd exponent (odd field order) the constrained frame flips with the numbering.  In the face basis the edge direction is "
                       "+-1, any even literal gives the same constraint for every order",
-                      note=f"{qual}: `{au.src(pw)}` even power of the edge direction")
-    fl.require(3)
+                      note=f"{qual}: even power of the edge direction")
+        if not pows and not leaks:
+            ctx.undecided("C18-E1", site, f"{qual}: the way the edge direction enters self.var is not recognised", "")
+
+
+def _const_complex(e):
+    if isinstance(e, ast.Call) and au.call_tail(e) == "complex" and all(hj_scope.fold(a) is not None for a in e.args) and not e.keywords:
+        return complex(*[hj_scope.fold(a) for a in e.args])
+    if isinstance(e, ast.Call) and au.call_tail(e) == "rect" and len(e.args) == 2 and all(hj_scope.fold(a) is not None for a in e.args):
+        return cmath.rect(*[hj_scope.fold(a) for a in e.args])
+    return None
 
 
 # ------------------------------------------------------------------------------ C18-L1
-LAPM = "operators.laplacian_op"
+def _conn_atom(x, conn="connection"):
+    """+1: x holds iff a connection is given; -1: iff none is given; None: not a test of the connection"""
+    if isinstance(x, ast.Name) and x.id == conn:
+        return 1
+    if isinstance(x, ast.Compare) and len(x.ops) == 1 and isinstance(x.left, ast.Name) and x.left.id == conn \
+            and isinstance(x.comparators[0], ast.Constant) and x.comparators[0].value is None:
+        if isinstance(x.ops[0], (ast.IsNot, ast.NotEq)):
+            return 1
+        if isinstance(x.ops[0], (ast.Is, ast.Eq)):
+            return -1
+    return None
 
 
-def _phase_poly(e, b, at, order_name):
-    """(magnitude Poly, phase Poly) of  m * rect(1, phi) [.conjugate()] ; None if not of that form"""
-    e = b.resolve(e, at=at, keep=(order_name,))
+def _conn_env(conds):
+    """{True} / {False} / {True, False}: values of `a connection is given` compatible with the conditions; None: a condition
+    mixes the connection with something else"""
+    envs = {True, False}
+    for t, pol in conds:
+        t, pol = au.strip_not(t, pol)
+        a = _conn_atom(t)
+        if a is None:
+            if any(isinstance(n, ast.Name) and n.id == "connection" for n in ast.walk(t)):
+                return None
+            continue
+        holds_when_conn = (a == 1) == pol
+        envs &= {True} if holds_when_conn else {False}
+    return envs
 
+
+def _split_on_connection(e):
+    """[(conds, leaf)] splitting conditional expressions whose test mentions the connection only"""
+    if isinstance(e, ast.IfExp) and _conn_atom(au.strip_not(e.test, True)[0]) is not None:
+        out = []
+        for cs, leaf in _split_on_connection(e.body):
+            out.append(([(e.test, True)] + cs, leaf))
+        for cs, leaf in _split_on_connection(e.orelse):
+            out.append(([(e.test, False)] + cs, leaf))
+        return out
+    return [([], e)]
+
+
+def _triplets(fn, arrays):
+    """(row, col, value, stmt) emitted into the coordinate arrays, whatever idiom writes them: indexed stores grouped by index
+    expression between two advances of the counter, or runs of three appends.  Raises Unrecognised for incomplete groups."""
+    rows, cols, vals = arrays
+    out = []
+
+    def flush(pend):
+        for key, g in pend.items():
+            if set(g) == {rows, cols, vals}:
+                out.append((g[rows][0], g[cols][0], g[vals][0], g[vals][1]))
+            else:
+                raise Unrecognised("the (row, column, value) stores of one coefficient are not found together")
+        pend.clear()
+
+    def block(stmts):
+        pend = {}
+        for st in stmts:
+            hit = None
+
+            def one_append(body):
+                if len(body) == 1 and isinstance(body[0], ast.Expr) and isinstance(body[0].value, ast.Call) and au.call_tail(body[0].value) == "append" \
+                        and isinstance(body[0].value.func, ast.Attribute) and isinstance(body[0].value.func.value, ast.Name) \
+                        and body[0].value.func.value.id in arrays and len(body[0].value.args) == 1:
+                    return body[0].value.func.value.id, body[0].value.args[0]
+                return None
+            if isinstance(st, ast.If) and one_append(st.body) and one_append(st.orelse) and one_append(st.body)[0] == one_append(st.orelse)[0]:
+                hit = (one_append(st.body)[0], "append", ast.IfExp(test=st.test, body=one_append(st.body)[1], orelse=one_append(st.orelse)[1]))
+            elif isinstance(st, ast.Assign) and len(st.targets) == 1 and isinstance(st.targets[0], ast.Subscript) \
+                    and isinstance(st.targets[0].value, ast.Name) and st.targets[0].value.id in arrays:
+                hit = (st.targets[0].value.id, "idx:" + au.src(st.targets[0].slice), st.value)
+            elif isinstance(st, ast.Expr) and isinstance(st.value, ast.Call) and au.call_tail(st.value) == "append" and isinstance(st.value.func, ast.Attribute) \
+                    and isinstance(st.value.func.value, ast.Name) and st.value.func.value.id in arrays and len(st.value.args) == 1:
+                hit = (st.value.func.value.id, "append", st.value.args[0])
+            if hit is not None:
+                arr, key, v = hit
+                if key in pend and arr in pend[key]:
+                    flush(pend)
+                pend.setdefault(key, {})[arr] = (v, st)
+                continue
+            inc = au.increment(st)
+            if inc is not None or (isinstance(st, ast.Assign) and any(isinstance(t, ast.Name) for t in st.targets)
+                                   and any(("idx:" in k) and any(isinstance(n, ast.Name) and n.id in au.assigned_names(st.targets[0]) for n in ast.walk(ast.parse(k[4:], mode="eval")))
+                                           for k in pend)):
+                flush(pend)
+            for owner, fld in ([] if hit is not None else hj_norm_sub_blocks(st)):
+                flush(pend)
+                block(getattr(owner, fld))
+        flush(pend)
+    block(fn.body)
+    return out
+
+
+def hj_norm_sub_blocks(st):
+    from ..rules.hj_norm import sub_blocks
+    return sub_blocks(st)
+
+
+def _phase_poly(e, order_name):
+    """(magnitude Poly, phase Poly) of  m * rect(1, phi) [.conjugate()] ; None if not of that form (e is canonical)"""
     def atom_of(x):
         c = au.chain(x)
         if (c and c[-1] == "pi") or (isinstance(x, ast.Name) and x.id == "pi"):
@@ -676,15 +943,57 @@ def _phase_poly(e, b, at, order_name):
         if isinstance(x, ast.Call) and au.call_tail(x) == "rect" and len(x.args) == 2:
             if au.const(x.args[0]) not in (1, 1.0):
                 return None
-            return [], _poly_with(x.args[1], atom_of), 1
+            return [], _phase_atoms(x.args[1], atom_of), 1
+        if isinstance(x, ast.Call) and au.call_tail(x) == "exp" and len(x.args) == 1:
+            # exp(1j * phi)
+            a = x.args[0]
+            if isinstance(a, ast.BinOp) and isinstance(a.op, ast.Mult):
+                for u, w in ((a.left, a.right), (a.right, a.left)):
+                    if isinstance(u, ast.Constant) and u.value == 1j:
+                        return [], _phase_atoms(w, atom_of), 1
+            return None
         return [x], sym.Poly(), 1
     r = split(e)
     if r is None:
         return None
     mag = sym.Poly.const(r[2])
     for f in r[0]:
-        mag = mag * _poly_with(f, atom_of)
+        mag = mag * _phase_atoms(f, atom_of)
     return mag, r[1]
+
+
+def _phase_atoms(e, atom_of):
+    def hook(x):
+        a = atom_of(x)
+        if a is not None:
+            return a
+        if isinstance(x, ast.Constant) and isinstance(x.value, (int, float)) and not isinstance(x.value, bool):
+            return sym.Poly.const(Fraction(x.value).limit_denominator(10 ** 9))
+        return None
+    # pi must stay symbolic here: do not fold it
+    def rec(x):
+        a = hook(x)
+        if a is not None:
+            return a
+        if isinstance(x, ast.Name):
+            return sym.Poly.atom(x.id)
+        if isinstance(x, ast.UnaryOp) and isinstance(x.op, ast.USub):
+            return -rec(x.operand)
+        if isinstance(x, ast.UnaryOp) and isinstance(x.op, ast.UAdd):
+            return rec(x.operand)
+        if isinstance(x, ast.BinOp):
+            if isinstance(x.op, ast.Add):
+                return rec(x.left) + rec(x.right)
+            if isinstance(x.op, ast.Sub):
+                return rec(x.left) - rec(x.right)
+            if isinstance(x.op, ast.Mult):
+                return rec(x.left) * rec(x.right)
+            if isinstance(x.op, ast.Div):
+                r = rec(x.right)
+                if r.is_const() and r.const_value() != 0:
+                    return rec(x.left).scale(1 / r.const_value())
+        return sym.Poly.atom("<" + au.src(x) + ">")
+    return rec(e)
 
 
 def _is_period(p, order_name):
@@ -707,150 +1016,320 @@ def _subst_atom(p, atom, repl):
     return out
 
 
-def _coo_emits(body, arrays):
-    """[(row, col, value, stmt)] of `rows[k], cols[k], vals[k], k = r, c, v, k+1` style stores among the statements of body"""
-    rows, cols, vals = arrays
-    out = []
-    for st in au.stmts(body):
-        if isinstance(st, ast.Assign) and len(st.targets) == 1 and isinstance(st.targets[0], ast.Tuple) \
-                and isinstance(st.value, ast.Tuple) and len(st.value.elts) == len(st.targets[0].elts):
-            got = {}
-            for t, v in zip(st.targets[0].elts, st.value.elts):
-                if isinstance(t, ast.Subscript) and isinstance(t.value, ast.Name) and t.value.id in (rows, cols, vals):
-                    got[t.value.id] = v
-            if len(got) == 3:
-                out.append((got[rows], got[cols], got[vals], st))
+def _entries_by_env(ctx, fn, S, raw, keep):
+    """raw: [(row expr, col expr, value expr, stmt)] -> {True: {(r, c): (value, stmt)}, False: {...}}; raises Unrecognised"""
+    out = {True: {}, False: {}}
+    for r, c, v, st in raw:
+        rc, cc = au.src(S.canon(r, st, keep=keep)), au.src(S.canon(c, st, keep=keep))
+        if rc == cc:
+            continue          # diagonal coefficients accumulate (several per row): only the off-diagonal ones are compared
+        base = H.inner_conds(S, st, fn, keep=keep)
+        for cs, leaf in _split_on_connection(S.canon(v, st, keep=keep)):
+            envs = _conn_env(base + cs)
+            if envs is None:
+                raise Unrecognised("a coefficient is emitted under a condition that mixes the connection with another test")
+            for env in envs:
+                if (rc, cc) in out[env]:
+                    raise Unrecognised("a coefficient is emitted twice for the same (row, column) in one case")
+                out[env][(rc, cc)] = (leaf, st)
     return out
 
 
 def l1_flat_reduction(ctx):
-    fl = H.Floor(ctx, "C18-L1")
-    fn = ctx.repo.func(LAPM, "laplacian")
-    site = ctx.site(LAPM, fn)
-    b = sym.Bindings(fn)
+    _l1_laplacian(ctx)
+    _l1_triangles(ctx)
+
+
+def _l1_laplacian(ctx):
+    fn0 = ctx.repo.func(LAPM, "laplacian")
+    site = ctx.site(LAPM, fn0)
+    fn, S, nz = H.norm_fn(ctx, LAPM, "laplacian")
     ps = au.params(fn)
-    order_name = "order" if "order" in ps else None
-    conn = "connection" if "connection" in ps else None
+    if "order" not in ps or "connection" not in ps:
+        ctx.undecided("C18-L1", site, "laplacian: parameters `connection` / `order` not recognised", "")
+        return
     arrays = None
     for c in au.calls(fn):
         if au.call_tail(c) in ("csc_matrix", "csr_matrix", "coo_matrix") and c.args and isinstance(c.args[0], ast.Tuple) \
                 and len(c.args[0].elts) == 2 and isinstance(c.args[0].elts[1], ast.Tuple) and len(c.args[0].elts[1].elts) == 2 \
                 and all(isinstance(x, ast.Name) for x in [c.args[0].elts[0]] + c.args[0].elts[1].elts):
             arrays = (c.args[0].elts[1].elts[0].id, c.args[0].elts[1].elts[1].id, c.args[0].elts[0].id)
-    branch = None
-    for st in au.stmts(fn.body):
-        if isinstance(st, ast.If) and st.orelse and conn:
-            t = st.test
-            pos = None
-            if isinstance(t, ast.Compare) and len(t.ops) == 1 and H.is_name(t.left, conn) and au.const(t.comparators[0], 0) is None \
-                    and isinstance(t.comparators[0], ast.Constant):
-                pos = isinstance(t.ops[0], ast.IsNot)
-            elif H.is_name(t, conn):
-                pos = True
-            if pos is not None and arrays and (_coo_emits(st.body, arrays) or _coo_emits(st.orelse, arrays)):
-                branch = (st.body, st.orelse) if pos else (st.orelse, st.body)
-    if not (arrays and order_name and branch):
-        ctx.fail("C18-L1", site, "laplacian: connection / scalar branches of the assembly (`if connection is not None`) not found",
-                 "the frame-field solvers rely on this operator being Hermitian and reducing to the scalar Laplacian for a flat connection")
-    else:
-        cb, sb = (_coo_emits(x, arrays) for x in branch)
-        scal = {(au.src(r), au.src(c)): _poly_with(b.resolve(v, at=st), lambda x: None) for r, c, v, st in sb}
-        ent = {}
-        for r, c, v, st in cb:
-            pp = _phase_poly(v, b, st, order_name)
-            esite = ctx.site(LAPM, fn, st)
-            key = (au.src(r), au.src(c))
-            if pp is None:
-                ctx.fail("C18-L1", esite, f"laplacian: connection entry ({key[0]}, {key[1]}) is not magnitude * rect(1, phase)",
-                         f"found `{au.src(v)}`")
+    if arrays is None:
+        ctx.undecided("C18-L1", site, "laplacian: the assembly of the sparse matrix from (values, (rows, columns)) is not recognised", "")
+        return
+    loopvars = tuple(sorted({n for l in au.walk(fn) if isinstance(l, ast.For) for n in au.assigned_names(l.target)}))
+    try:
+        raw = _triplets(fn, arrays)
+        ent = _entries_by_env(ctx, fn, S, raw, loopvars)
+    except Unrecognised as u:
+        ctx.undecided("C18-L1", site, "laplacian: " + u.construct, u.what)
+        return
+    conn = {k: v for k, v in ent[True].items() if k[0] != k[1]}
+    scal = {k: v for k, v in ent[False].items() if k[0] != k[1]}
+    if not conn or not scal:
+        ctx.undecided("C18-L1", site, "laplacian: the off-diagonal coefficients of the connection / scalar case are not recognised", "")
+        return
+    pp = {}
+    for key, (v, st) in conn.items():
+        esite = ctx.site(LAPM, fn0, st)
+        r = _phase_poly(v, "order")
+        if r is None:
+            ctx.undecided("C18-L1", esite, "laplacian: a coefficient of the connection case is not of the form magnitude * rect(1, phase)", f"found `{au.src(v)[:80]}`")
+            continue
+        pp[key] = (r, st)
+        mag, ph = r
+        if key not in scal:
+            ctx.undecided("C18-L1", esite, "laplacian: a coefficient of the connection case has no counterpart in the scalar case", "")
+            continue
+        smag = _phase_poly(scal[key][0], "order")
+        ctx.check(smag is not None and smag[1].is_zero() and mag == smag[0], "C18-L1", esite,
+                  "laplacian: magnitude of an off-diagonal connection coefficient differs from the scalar case",
+                  f"connection: {mag!r}, scalar: {smag[0] if smag else None!r}; for a flat connection the operator must be the scalar Laplacian",
+                  note="magnitude as in the scalar case")
+        tij, tji = f"t[{key[0]},{key[1]}]", f"t[{key[1]},{key[0]}]"
+        okf, res = True, []
+        for sgn in (1, -1):
+            q = _subst_atom(ph, tji, sym.Poly.atom(tij) + sym.Poly.atom("pi").scale(sgn))
+            res.append(repr(q))
+            okf = okf and _is_period(q, "order")
+        ctx.check(okf, "C18-L1", esite,
+                  "laplacian: the phase of an off-diagonal coefficient does not vanish (mod 2*pi*order) for a flat connection",
+                  f"phase {ph!r}; with transport(j,i) = transport(i,j) +- pi (opposite directions of one edge in a common basis) it becomes "
+                  f"{res[0]} / {res[1]}, which is not a multiple of 2*pi*order for odd orders: the sign of the off-diagonal entries flips",
+                  note="phase = 0 mod 2*pi*order for a flat connection")
+    for (r, c), ((mag, ph), st) in pp.items():
+        if (c, r) not in pp:
+            if (c, r) in conn:
                 continue
-            ent[key] = (pp, st)
-            mag, ph = pp
-            ctx.check(key in scal and mag == scal[key], "C18-L1", esite,
-                      f"laplacian: magnitude of the connection entry ({key[0]}, {key[1]}) differs from the scalar branch",
-                      f"connection: {mag!r}, scalar: {scal.get(key)!r}; for a flat connection the operator must be the scalar Laplacian",
-                      note=f"({key[0]},{key[1]}): magnitude as in the scalar branch")
-            # flat reduction: t[j,i] = t[i,j] +- pi
-            tij, tji = f"t[{key[0]},{key[1]}]", f"t[{key[1]},{key[0]}]"
-            okf = True
-            res = []
-            for s in (1, -1):
-                q = _subst_atom(ph, tji, sym.Poly.atom(tij) + sym.Poly.atom("pi").scale(s))
-                res.append(repr(q))
-                okf = okf and _is_period(q, order_name)
-            ctx.check(okf, "C18-L1", esite,
-                      f"laplacian: the phase of entry ({key[0]}, {key[1]}) does not vanish (mod 2*pi*order) for a flat connection",
-                      f"phase {ph!r}; with transport(j,i) = transport(i,j) +- pi (opposite directions of one edge in a common basis) it becomes "
-                      f"{res[0]} / {res[1]}, which is not a multiple of 2*pi*order for odd orders: the sign of the off-diagonal entries flips",
-                      note=f"({key[0]},{key[1]}): phase = 0 mod 2*pi*order for a flat connection")
-        for (r, c), ((mag, ph), st) in ent.items():
-            if (c, r) not in ent:
-                ctx.fail("C18-L1", ctx.site(LAPM, fn, st), f"laplacian: connection entry ({r}, {c}) has no transposed entry", "the operator is not Hermitian")
-                continue
-            if (r, c) < (c, r):
-                tot = ph + ent[(c, r)][0][1]
-                ctx.check(_is_period(tot, order_name) and mag == ent[(c, r)][0][0], "C18-L1", ctx.site(LAPM, fn, st),
-                          f"laplacian: entries ({r}, {c}) and ({c}, {r}) of the connection branch are not conjugate",
-                          f"phases sum to {tot!r} (must be a multiple of 2*pi*order), magnitudes {mag!r} / {ent[(c, r)][0][0]!r}",
-                          note=f"({r},{c}) / ({c},{r}) conjugate")
-        if not ent:
-            ctx.fail("C18-L1", site, "laplacian: no off-diagonal entry found in the connection branch", "")
-    # ---- laplacian_triangles
-    fn = ctx.repo.func(LAPM, "laplacian_triangles")
-    site = ctx.site(LAPM, fn)
-    b = sym.Bindings(fn)
-    stores = H.subscript_stores(fn, lambda x: isinstance(x, ast.Name))
-    rows = {}
-    for st, tgt, val in stores:
-        if isinstance(tgt.slice, ast.Tuple) and len(tgt.slice.elts) == 2 and val is not None:
-            cond = [au.src(t) for t, p, _ in H.path_condition(st, stop=fn) if "connection" in au.src(t)]
-            pol = [p for t, p, _ in H.path_condition(st, stop=fn) if "connection" in au.src(t)]
-            if len(cond) == 1:
-                is_conn = pol[0] == ("is not None" in cond[0] or cond[0] == "connection")
-                rows.setdefault(is_conn, []).append((tgt.value.id, val, st))
-    ok_rows = True
-    detail = ""
-    if set(rows) != {True, False} or len(rows[True]) != 2 or len(rows[False]) != 2:
-        ok_rows = False
-        detail = f"entries per branch: { {k: len(v) for k, v in rows.items()} }"
+            ctx.undecided("C18-L1", ctx.site(LAPM, fn0, st), "laplacian: the transposed of an off-diagonal coefficient of the connection case is not recognised", "")
+            continue
+        if (r, c) < (c, r):
+            tot = ph + pp[(c, r)][0][1]
+            ctx.check(_is_period(tot, "order") and mag == pp[(c, r)][0][0], "C18-L1", ctx.site(LAPM, fn0, st),
+                      "laplacian: a coefficient of the connection case and its transposed are not conjugate",
+                      f"phases sum to {tot!r} (must be a multiple of 2*pi*order), magnitudes {mag!r} / {pp[(c, r)][0][0]!r}",
+                      note="(i,j) / (j,i) conjugate")
+
+
+def _l1_triangles(ctx):
+    fn0 = ctx.repo.func(LAPM, "laplacian_triangles")
+    site = ctx.site(LAPM, fn0)
+    fn, S, nz = H.norm_fn(ctx, LAPM, "laplacian_triangles", keep=("cotan_edge_diagonal",))
+    loopvars = tuple(sorted({n for l in au.walk(fn) if isinstance(l, ast.For) for n in au.assigned_names(l.target)}))
+    # entries of the gradient matrix:  N[row, col] = value
+    raw = []
+    mats = set()
+    for st, tgt, val in H.subscript_stores(fn, lambda x: isinstance(x, ast.Name)):
+        if isinstance(tgt.slice, ast.Tuple) and len(tgt.slice.elts) == 2 and val is not None and isinstance(st, ast.Assign):
+            raw.append((tgt.slice.elts[0], tgt.slice.elts[1], val, st))
+            mats.add(tgt.value.id)
+    if not raw:
+        # coordinate-format assembly: (values, (rows, columns)) handed to a sparse constructor
+        for c in au.calls(fn):
+            if au.call_tail(c) in ("csc_matrix", "csr_matrix", "coo_matrix") and c.args and isinstance(c.args[0], ast.Tuple) \
+                    and len(c.args[0].elts) == 2 and isinstance(c.args[0].elts[1], ast.Tuple) and len(c.args[0].elts[1].elts) == 2 \
+                    and all(isinstance(x, ast.Name) for x in [c.args[0].elts[0]] + c.args[0].elts[1].elts):
+                arrays = (c.args[0].elts[1].elts[0].id, c.args[0].elts[1].elts[1].id, c.args[0].elts[0].id)
+                try:
+                    raw = _triplets(fn, arrays)
+                    mats = {"coo"}
+                except Unrecognised:
+                    raw = []
+    if len(mats) != 1 or not raw:
+        ctx.undecided("C18-L1", site, "laplacian_triangles: the entries of the gradient matrix are not recognised", "")
     else:
-        sc = sorted(float(order.fold_const(v)) if order.fold_const(v) is not None else 9e9 for _, v, _ in rows[False])
-        mags = []
-        for _, v, st in rows[True]:
-            pp = _phase_poly(v, b, st, "order")
-            if pp is None:
-                ok_rows = False
-                detail = f"`{au.src(v)}` is not magnitude * rect(1, phase)"
-                break
-            mag, ph = pp
-            ph0 = ph
-            for a in list(ph.atoms()):
-                if a.startswith("t["):
-                    ph0 = _subst_atom(ph0, a, sym.Poly())
-            if not ph0.is_zero() or not mag.is_const():
-                ok_rows = False
-                detail = f"`{au.src(v)}`: phase {ph!r} does not vanish with the transport"
-            mags.append(float(mag.const_value()) if mag.is_const() else 9e9)
-        if ok_rows and (sorted(mags) != sc or sc != [-1.0, 1.0]):
-            ok_rows = False
-            detail = f"connection magnitudes {sorted(mags)} vs scalar entries {sc}"
-    ctx.check(ok_rows, "C18-L1", site, "laplacian_triangles: the gradient rows are not (-1, rect(1, order*transport)) reducing to (-1, 1)",
-              detail + ": for a zero transport (flat connection) the operator must equal the scalar dual Laplacian",
-              note="laplacian_triangles: rows (-1, rect(1, order*t)) reduce to (-1, 1)")
-    rets = [r for r in au.walk(fn) if isinstance(r, ast.Return)]
-    okp = bool(rets)
+        try:
+            ent = _entries_by_env(ctx, fn, S, raw, loopvars)
+            ok_rows, detail = True, ""
+            if set(ent[True]) != set(ent[False]) or len(ent[True]) != 2:
+                raise Unrecognised("the connection and the scalar case do not fill the same two entries per interior edge")
+            for key, (v, st) in ent[True].items():
+                r = _phase_poly(v, "order")
+                s_ = _phase_poly(ent[False][key][0], "order")
+                if r is None or s_ is None or not s_[1].is_zero():
+                    raise Unrecognised("an entry of the gradient matrix is not magnitude * rect(1, phase)")
+                mag, ph = r
+                ph0 = ph
+                for a in list(ph.atoms()):
+                    if a.startswith("t["):
+                        ph0 = _subst_atom(ph0, a, sym.Poly())
+                if not ph0.is_zero():
+                    ok_rows, detail = False, f"`{au.src(v)[:60]}`: phase {ph!r} does not vanish with the transport"
+                elif not (mag == s_[0]):
+                    ok_rows, detail = False, f"magnitude {mag!r} in the connection case, {s_[0]!r} in the scalar case"
+            ctx.check(ok_rows, "C18-L1", site, "laplacian_triangles: the gradient rows of the connection case do not reduce to those of the scalar case for a zero transport",
+                      detail + ": for a flat connection the operator must equal the scalar dual Laplacian",
+                      note="laplacian_triangles: rows (-1, rect(1, order*t)) reduce to (-1, 1)")
+        except Unrecognised as u:
+            ctx.undecided("C18-L1", site, "laplacian_triangles: " + u.construct, u.what)
+    # the product N^H [D] N
+    rets = [r for r in au.walk(fn) if isinstance(r, ast.Return) and r.value is not None]
+    verdicts = []
     for r in rets:
-        v = r.value
+        v = S.canon(r.value, r)
         chain = []
         while isinstance(v, ast.BinOp) and isinstance(v.op, ast.MatMult):
             chain.insert(0, v.right)
             v = v.left
         chain.insert(0, v)
-        first = b.resolve(chain[0], at=r) if isinstance(chain[0], ast.Name) and b.reaching(chain[0].id, r) is not None else chain[0]
-        d = b.reaching(chain[0].id, r) if isinstance(chain[0], ast.Name) else chain[0]
-        herm = d is not None and au.src(d) in (f"{au.src(chain[-1])}.conj().transpose()", f"{au.src(chain[-1])}.conjugate().transpose()",
-                                              f"{au.src(chain[-1])}.transpose().conj()", f"{au.src(chain[-1])}.getH()", f"{au.src(chain[-1])}.H")
-        okp = okp and len(chain) in (2, 3) and herm
-    ctx.check(okp, "C18-L1", site, "laplacian_triangles: the result is not N^H @ [D] @ N with N^H the conjugate transpose of N",
-              "Hermitian by construction only in that form", note="laplacian_triangles: N^H [D] N")
-    fl.require(7)
+        if len(chain) not in (2, 3):
+            verdicts.append("?")
+            continue
+        last = au.src(chain[-1])
+        first = au.src(chain[0])
+        herm = first in (f"{last}.conj().transpose()", f"{last}.conjugate().transpose()", f"{last}.transpose().conj()", f"{last}.transpose().conjugate()",
+                         f"{last}.getH()", f"{last}.H", f"{last}.conj().T", f"{last}.T.conj()", f"{last}.conjugate().T", f"{last}.T.conjugate()")
+        plain_t = first in (f"{last}.transpose()", f"{last}.T")
+        verdicts.append("ok" if herm else ("bad" if plain_t else "?"))
+    if not rets or "?" in verdicts:
+        if "bad" in verdicts:
+            ctx.fail("C18-L1", site, "laplacian_triangles: the result is not N^H @ [D] @ N with N^H the conjugate transpose of N",
+                     "a plain transpose is used: with a connection the operator is not Hermitian")
+        else:
+            ctx.undecided("C18-L1", site, "laplacian_triangles: the returned product N^H @ [D] @ N is not recognised", "")
+    else:
+        ctx.check("bad" not in verdicts, "C18-L1", site, "laplacian_triangles: the result is not N^H @ [D] @ N with N^H the conjugate transpose of N",
+                  "a plain transpose is used: with a connection the operator is not Hermitian", note="laplacian_triangles: N^H [D] N")
+
+
+# ------------------------------------------------------------------------------ C18-S1
+def _attr_call(e, tails):
+    return isinstance(e, ast.Call) and au.call_tail(e) in tails and isinstance(e.func, ast.Attribute)
+
+
+def _fresh_verdict(ctx, mod, qual, fn, S, expr, at, depth=0):
+    """'ok' | 'bare-create' | 'no-clear' | '?' : is the attribute denoted by expr (at `at` in fn) free of values of a previous call"""
+    clears = [au.src(S.canon(c.func.value, c)) for c in au.calls(fn) if au.call_tail(c) == "clear" and isinstance(c.func, ast.Attribute) and not c.args]
+    c = S.canon(expr, at)
+    leaves = hj_scope.ifexp_leaves(c)
+    verdicts = []
+    path = [(t, p) for t, p in (S.conds(at) if isinstance(at, ast.Return) else [])
+            if isinstance(au.strip_not(t, p)[0], ast.Call) and au.call_tail(au.strip_not(t, p)[0]) == "has_attribute"]
+    for conds, leaf in leaves:
+        conds = path + conds
+        if _attr_call(leaf, ("get_attribute", "create_attribute")):
+            has = [(t, p) for t, p in conds if isinstance(au.strip_not(t, p)[0], ast.Call) and au.call_tail(au.strip_not(t, p)[0]) == "has_attribute"]
+            if len(has) != len(conds):
+                verdicts.append("?")
+            elif au.call_tail(leaf) == "get_attribute":
+                verdicts.append("ok" if au.src(leaf) in clears else "no-clear")
+            elif not has:
+                verdicts.append("bare-create")
+            else:
+                t, p = au.strip_not(*has[0])
+                verdicts.append("ok" if not p else "bare-create")
+        elif isinstance(leaf, ast.Call) and isinstance(leaf.func, ast.Attribute) and au.is_self_attr(leaf.func) and depth < 2 and "." in qual:
+            cls = qual.rsplit(".", 1)[0]
+            m = ctx.repo.module(mod)
+            meths = ctx.repo.methods(m, m.classes[cls]) if cls in m.classes else {}
+            if leaf.func.attr not in meths:
+                verdicts.append("?")
+                continue
+            mm, f, owner = meths[leaf.func.attr]
+            q2 = f"{owner._qualname}.{f.name}"
+            mod2 = mm.name[len("mouette."):] if mm.name.startswith("mouette.") else mm.name
+            fn2, S2, _ = H.norm_fn(ctx, mod2, q2, unroll=False)
+            rets = [r for r in au.walk(fn2) if isinstance(r, ast.Return) and r.value is not None]
+            if not rets:
+                verdicts.append("?")
+            for r in rets:
+                verdicts.append(_fresh_verdict(ctx, mod2, q2, fn2, S2, r.value, r, depth + 1))
+        else:
+            verdicts.append("?")
+    for v in ("bare-create", "no-clear", "?"):
+        if v in verdicts:
+            return v
+    return "ok" if verdicts else "?"
+
+
+def s1_fresh_singularities(ctx):
+    # the face-based field only (the clause of the property is about its singularity indices)
+    for mod, qual in ((FACES, "_BaseFrameField2DFaces.flag_singularities"),):
+        fn0 = ctx.repo.func(mod, qual)
+        site = ctx.site(mod, fn0)
+        fn, S, nz = H.norm_fn(ctx, mod, qual, unroll=False)
+        seen = set()
+        n = 0
+        for st, tgt, val in H.subscript_stores(fn, lambda x: isinstance(x, ast.Name)):
+            X = tgt.value.id
+            if X in seen or not H.loop_ancestors(st, stop=fn):
+                continue
+            c = S.canon(tgt.value, st)
+            if not any(isinstance(n_, ast.Call) and (au.call_tail(n_) in ("get_attribute", "create_attribute") or "attribute" in (au.call_tail(n_) or "")) for n_ in ast.walk(c)):
+                continue
+            seen.add(X)
+            n += 1
+            ssite = ctx.site(mod, fn0, st)
+            v = _fresh_verdict(ctx, mod, qual, fn, S, tgt.value, st)
+            if v == "bare-create":
+                lp_ = H.loop_ancestors(st, stop=fn)[0]
+                sparse = bool(H.path_condition(st, stop=lp_))
+                deleted = any(au.call_tail(c) == "delete_attribute" for c in au.calls(fn))
+                if not sparse or deleted:
+                    v = "ok" if not sparse else "?"
+            if v == "ok":
+                ctx.ok("C18-S1", ssite, "attribute created, or fetched and cleared")
+            elif v == "bare-create":
+                ctx.fail("C18-S1", ssite, "flag_singularities writes into an attribute obtained by create_attribute() without testing that it does not exist yet",
+                         "create_attribute hands back the *existing* attribute when one of that name is already stored (duplicate warning enabled): the method "
+                         "only writes non-zero entries, so the values flagged by a previous call survive and the indices no longer add up")
+            elif v == "no-clear":
+                ctx.fail("C18-S1", ssite, "flag_singularities writes into an attribute fetched with get_attribute() that is not cleared",
+                         "the method only writes non-zero entries: the values flagged by a previous call survive")
+            else:
+                ctx.undecided("C18-S1", ssite, "flag_singularities: the way the written attribute is obtained is not recognised", "")
+        if n == 0:
+            ctx.undecided("C18-S1", site, f"{qual}: the attributes written by flag_singularities are not recognised", "")
+
+
+# ------------------------------------------------------------------------------ C18-I1
+OPT_INDEX = {"face_id", "edge_id", "vertex_to_corner_in_face", "previous_corner", "next_corner", "opposite_corner", "half_edge_to_corner",
+             "direct_face", "opposite_face", "in_face_index", "corner_to_face", "face_to_first_corner"}
+
+
+def _truth_operands(test):
+    """expressions whose truth value decides `test`"""
+    if isinstance(test, ast.UnaryOp) and isinstance(test.op, ast.Not):
+        return _truth_operands(test.operand)
+    if isinstance(test, ast.BoolOp):
+        return [x for v in test.values for x in _truth_operands(v)]
+    return [test]
+
+
+def i1_index_truth(ctx):
+    n = 0
+    for modname in (CONN, FACES, VERTS, LAPM):
+        m = ctx.repo.module(modname)
+        for qual, fn in m.funcs.items():
+            S = None
+            tests = []
+            for node in au.walk(fn):
+                if isinstance(node, (ast.If, ast.While, ast.IfExp, ast.Assert)):
+                    tests.append((node.test, node))
+                elif isinstance(node, ast.comprehension):
+                    tests.extend((t, node) for t in node.ifs)
+                elif isinstance(node, ast.BoolOp) and not isinstance(au.parent(node), (ast.If, ast.While, ast.IfExp, ast.BoolOp, ast.UnaryOp, ast.Assert)):
+                    tests.append((node, node))          # `x = c and f(c)` / `a or b`
+            for test, node in tests:
+                for op in _truth_operands(test):
+                    if not isinstance(op, (ast.Name, ast.Call, ast.Subscript)):
+                        continue
+                    if S is None:
+                        S = hj_scope.Scope(fn)
+                    c = S.canon(op, node if isinstance(node, ast.stmt) else (au.enclosing_stmt(node) or fn.body[0]))
+                    hits = [l for _, l in hj_scope.ifexp_leaves(c) if isinstance(l, ast.Call) and au.call_tail(l) in OPT_INDEX
+                            and not any(k.arg == "return_inds" for k in l.keywords) and len(l.args) < 3]
+                    if not hits and isinstance(op, ast.Name):
+                        for lp in au.ancestors(node):
+                            if isinstance(lp, ast.For) and isinstance(lp.target, ast.Name) and lp.target.id == op.id:
+                                ic = S.canon(lp.iter, lp)
+                                if isinstance(ic, ast.Call) and au.call_tail(ic) == "edge_to_faces":
+                                    hits = [ic]
+                                break
+                    if hits:
+                        ctx.fail("C18-I1", ctx.site(modname, fn, node), f"the result of {au.call_tail(hits[0])}() is tested for truth",
+                                 f"`{au.src(op)[:60]}` is an element index or None: index 0 is falsy, so the element numbered 0 is treated as absent; the "
+                                 "result then depends on the numbering of the mesh (which vertex / corner / face is the first one)")
+            n += 1
+            ctx.ok("C18-I1", ctx.site(modname, fn), "no element index tested for truth") if False else None
+    ctx.ok("C18-I1", ctx.site(CONN, "SurfaceConnectionVertices._initialize"), f"{n} functions of the connection / frame-field modules: no element index tested for truth")
